@@ -1,0 +1,932 @@
+// Copyright 2020-2025 Buf Technologies, Inc.
+//
+// Licensed under the Apache License, Version 2.0 (the "License");
+// you may not use this file except in compliance with the License.
+// You may obtain a copy of the License at
+//
+//      http://www.apache.org/licenses/LICENSE-2.0
+//
+// Unless required by applicable law or agreed to in writing, software
+// distributed under the License is distributed on an "AS IS" BASIS,
+// WITHOUT WARRANTIES OR CONDITIONS OF ANY KIND, either express or implied.
+// See the License for the specific language governing permissions and
+// limitations under the License.
+
+//go:build verif
+
+package bufconfig
+
+// Contracts for the gocv verifier (see /verif/DESIGN.md). Comment-only.
+//
+// C16, the configuration files other than the lint/breaking part of buf.yaml: buf.work.yaml, buf.lock, the module
+// part of buf.yaml, buf.gen.yaml. YAML (un)marshalling is trusted; the contracts relate the external structs to the
+// configuration objects. Spec names (z_*) and the ghost variables that record the external values: /verif/specs/C16_files.spec.
+//
+// File versions as written into the `version` key of every file kind.
+// (fileVersionToString is a package-level table: its content is the obligation table[z_versionNames.names]; a
+// function that needs the names states `requires z_versionNames(fileVersionToString)`, which that obligation establishes.)
+//@ pure func (f FileVersion) String() (r)
+//@   property C16
+//@   ensures v1beta1: z_versionNames(fileVersionToString) && f == FileVersionV1Beta1 ==> r == "v1beta1"
+//@   ensures v1: z_versionNames(fileVersionToString) && f == FileVersionV1 ==> r == "v1"
+//@   ensures v2: z_versionNames(fileVersionToString) && f == FileVersionV2 ==> r == "v2"
+//@ table z_versionNames {C16} of fileVersionToString
+//@   ensures names: FileVersionV1Beta1 in fileVersionToString && fileVersionToString[FileVersionV1Beta1] == "v1beta1" && FileVersionV1 in fileVersionToString && fileVersionToString[FileVersionV1] == "v1" && FileVersionV2 in fileVersionToString && fileVersionToString[FileVersionV2] == "v2"
+//@ table z_versionParse {C16} of stringToFileVersion
+//@   ensures inverse: "v1beta1" in stringToFileVersion && stringToFileVersion["v1beta1"] == FileVersionV1Beta1 && "v1" in stringToFileVersion && stringToFileVersion["v1"] == FileVersionV1 && "v2" in stringToFileVersion && stringToFileVersion["v2"] == FileVersionV2
+//@   ensures nothing-else: forall k string :: k in stringToFileVersion ==> k == "v1beta1" || k == "v1" || k == "v2"
+//@ func newUnsupportedFileVersionError(name, fileVersion) (r)
+//@   property C16
+//@   ensures is-error: r != nil
+//
+// ---------------------------------------------------------------------------------------------------------------
+// buf.work.yaml
+//
+// Documented on BufWorkYAMLFile.DirPaths(): at least one path; no duplicates; no path contains another one; "." is
+// not a member; every path normalized and validated; sorted.
+//@ func validateBufWorkYAMLDirPaths(dirPaths) (r, err)
+//@   property C16
+//@   reveal e_normSet, e_sorted, e_allValid, e_noOverlap
+//@   ensures empty-rejected: len(dirPaths) == 0 ==> err != nil
+//@   ensures input-valid: err == nil ==> (forall j int :: 0 <= j && j < len(dirPaths) ==> second(normalpath.NormalizeAndValidate(dirPaths[j])) == nil && normalpath.Normalize(dirPaths[j]) != ".")
+//@   ensures input-distinct: err == nil ==> (forall a int, b int :: 0 <= a && a < b && b < len(dirPaths) ==> normalpath.Normalize(dirPaths[a]) != normalpath.Normalize(dirPaths[b]))
+//@   ensures nonempty: err == nil ==> len(r) > 0
+//@   ensures only-normalized: err == nil ==> (forall i int :: 0 <= i && i < len(r) ==> (exists j int :: 0 <= j && j < len(dirPaths) && r[i] == normalpath.Normalize(dirPaths[j])))
+//@   ensures all-normalized: err == nil ==> (forall j int :: 0 <= j && j < len(dirPaths) ==> (exists i int :: 0 <= i && i < len(r) && r[i] == normalpath.Normalize(dirPaths[j])))
+//@   ensures valid-no-dot: err == nil ==> (forall i int :: 0 <= i && i < len(r) ==> validRel(r[i]) && r[i] != ".")
+//@   ensures sorted: err == nil ==> (forall i int, j int :: 0 <= i && i < j && j < len(r) ==> r[i] <= r[j])
+//@   ensures no-containment: err == nil ==> (forall a int, b int :: 0 <= a && a < b && b < len(r) && r[a] != r[b] ==> !ancOrSelf(r[a], r[b]) && !ancOrSelf(r[b], r[a]))
+//@   ensures summary: err == nil ==> e_normSet(r, dirPaths) && e_sorted(r) && e_allValid(r)
+//@   ensures invalid-rejected: (exists j int :: 0 <= j && j < len(dirPaths) && second(normalpath.NormalizeAndValidate(dirPaths[j])) != nil) ==> err != nil
+//@   ensures dot-rejected: (exists j int :: 0 <= j && j < len(dirPaths) && normalpath.Normalize(dirPaths[j]) == ".") ==> err != nil
+//@   ensures duplicate-rejected: (exists a int, b int :: 0 <= a && a < b && b < len(dirPaths) && normalpath.Normalize(dirPaths[a]) == normalpath.Normalize(dirPaths[b])) ==> err != nil
+//@   ensures overlap-rejected: (forall j int :: 0 <= j && j < len(dirPaths) ==> second(normalpath.NormalizeAndValidate(dirPaths[j])) == nil) && (exists a int, b int :: 0 <= a && a < len(dirPaths) && 0 <= b && b < len(dirPaths) && normalpath.Normalize(dirPaths[a]) != normalpath.Normalize(dirPaths[b]) && ancOrSelf(normalpath.Normalize(dirPaths[a]), normalpath.Normalize(dirPaths[b]))) ==> err != nil
+//@   loop 0 invariant normalizedDirPathToDirPath != nil
+//@   loop 0 invariant forall j int :: 0 <= j && j < $i ==> second(normalpath.NormalizeAndValidate(dirPaths[j])) == nil && normalpath.Normalize(dirPaths[j]) != "." && normalpath.Normalize(dirPaths[j]) in normalizedDirPathToDirPath
+//@   loop 0 invariant forall k string :: k in normalizedDirPathToDirPath ==> validRel(k) && k != "." && (exists j int :: 0 <= j && j < $i && k == normalpath.Normalize(dirPaths[j]))
+//@   loop 0 invariant forall a int, b int :: 0 <= a && a < b && b < $i ==> normalpath.Normalize(dirPaths[a]) != normalpath.Normalize(dirPaths[b])
+//@   loop 1 invariant forall a int, b int :: 0 <= a && a < $i1 && a < b && b < len(sortedNormalizedDirPaths) && sortedNormalizedDirPaths[a] != sortedNormalizedDirPaths[b] ==> !ancOrSelf(sortedNormalizedDirPaths[a], sortedNormalizedDirPaths[b]) && !ancOrSelf(sortedNormalizedDirPaths[b], sortedNormalizedDirPaths[a])
+//@   loop 2 invariant i + 1 <= j && j <= len(sortedNormalizedDirPaths) && 0 <= i && i < len(sortedNormalizedDirPaths)
+//@   loop 2 invariant forall b int :: i < b && b < j && sortedNormalizedDirPaths[i] != sortedNormalizedDirPaths[b] ==> !ancOrSelf(sortedNormalizedDirPaths[i], sortedNormalizedDirPaths[b]) && !ancOrSelf(sortedNormalizedDirPaths[b], sortedNormalizedDirPaths[i])
+//@   canary ensures err != nil
+//
+// The constructor: v1 only; the stored list is the validated one; nothing else is changed.
+//@ func newBufWorkYAMLFile(fileVersion, objectData, dirPaths) (r, err)
+//@   property C16
+//@   ensures v1-only: fileVersion != FileVersionV1 ==> err != nil
+//@   ensures fresh: err == nil ==> r != nil
+//@   ensures error-nil: err != nil ==> r == nil
+//@   ensures version: err == nil ==> r.fileVersion == fileVersion
+//@   ensures object-data: err == nil ==> r.objectData == objectData
+//@   ensures nonempty: err == nil ==> len(r.dirPaths) > 0
+//@   ensures dirs: err == nil ==> e_normSet(r.dirPaths, dirPaths) && e_sorted(r.dirPaths) && e_allValid(r.dirPaths)
+//@   ensures no-dot: err == nil ==> (forall i int :: 0 <= i && i < len(r.dirPaths) ==> r.dirPaths[i] != ".")
+//@   ensures no-containment: err == nil ==> (forall a int, b int :: 0 <= a && a < b && b < len(r.dirPaths) && r.dirPaths[a] != r.dirPaths[b] ==> !ancOrSelf(r.dirPaths[a], r.dirPaths[b]) && !ancOrSelf(r.dirPaths[b], r.dirPaths[a]))
+//@   canary ensures err != nil
+//@   canary ensures err == nil
+//
+//@ func (w *bufWorkYAMLFile) DirPaths() (r)
+//@   property C16
+//@   ensures r == w.dirPaths
+//@ func (w *bufWorkYAMLFile) FileVersion() (r)
+//@   property C16
+//@   ensures r == w.fileVersion
+//
+// Reader: the stored directories are the validated form of the decoded `directories` (ghost.z_workDirsIn records them).
+//@ trusted pure interface ObjectData
+//@ func readBufWorkYAMLFile(data, objectData, allowJSON) (r, err)
+//@   property C16
+//@   modifies heap, ghost.fail, ghost.wfail, ghost.z_workDirsIn
+//@   ghost after "if err := getUnmarshalStrict(allowJSON)(data, &externalBufWorkYAMLFile)" z_workDirsIn := externalBufWorkYAMLFile.Directories
+//@   ensures typed: err == nil ==> r != nil && cast(*bufWorkYAMLFile, r) != nil
+//@   ensures version: err == nil ==> cast(*bufWorkYAMLFile, r).fileVersion == FileVersionV1
+//@   ensures object-data: err == nil ==> cast(*bufWorkYAMLFile, r).objectData == objectData
+//@   ensures dirs: err == nil ==> e_normSet(cast(*bufWorkYAMLFile, r).dirPaths, ghost.z_workDirsIn) && e_sorted(cast(*bufWorkYAMLFile, r).dirPaths) && e_allValid(cast(*bufWorkYAMLFile, r).dirPaths)
+//@   ensures nonempty: err == nil ==> len(cast(*bufWorkYAMLFile, r).dirPaths) > 0
+//@   canary ensures err != nil
+//
+// Writer: v1 only; the encoder is handed version "v1" and exactly DirPaths() (ghost.z_workDirsOut records them).
+//@ trusted pure interface BufWorkYAMLFile
+//@ func writeBufWorkYAMLFile(writer, bufWorkYAMLFile) (err)
+//@   property C16
+//@   requires table-has-names: z_versionNames(fileVersionToString)
+//@   modifies heap, ghost.fail, ghost.wfail, ghost.z_workDirsOut
+//@   ghost before "data, err := encoding.MarshalYAML(&externalBufWorkYAMLFile)" z_workDirsOut := externalBufWorkYAMLFile.Directories
+//@   assert before "data, err := encoding.MarshalYAML(&externalBufWorkYAMLFile)" version-written: externalBufWorkYAMLFile.Version == "v1"
+//@   ensures v1-only: bufWorkYAMLFile.FileVersion() != FileVersionV1 ==> err != nil
+//@   ensures dirs-written: err == nil ==> ghost.z_workDirsOut == bufWorkYAMLFile.DirPaths()
+//@   canary ensures err != nil
+//
+// ---------------------------------------------------------------------------------------------------------------
+// buf.yaml, module part
+//
+// The module configuration object. Documented on ModuleConfig: DirPath normalized and validated ("." for v1beta1/v1);
+// RootToIncludes / RootToExcludes hold, per root, normalized and validated paths relative to that root (sorted);
+// for v1 and v2 the only root is ".". Name, lint and breaking configs are stored as given.
+//@ func newModuleConfig(dirPath, moduleFullName, rootToIncludes, rootToExcludes, lintConfig, breakingConfig) (r, err)
+//@   property C16
+//@   use e_valid-clean
+//@   reveal e_normSet, e_sorted, e_allValid
+//@   ensures fresh: err == nil ==> r != nil
+//@   ensures error-nil: err != nil ==> r == nil
+//@   ensures dir-path: err == nil ==> r.dirPath == normalpath.Normalize(dirPath) && validRel(r.dirPath)
+//@   ensures valid-dir-path-kept: err == nil && validRel(dirPath) ==> r.dirPath == dirPath
+//@   ensures dir-path-invalid-rejected: second(normalpath.NormalizeAndValidate(dirPath)) != nil ==> err != nil
+//@   ensures name: err == nil ==> r.moduleFullName == moduleFullName
+//@   ensures lint: err == nil ==> r.lintConfig == lintConfig && lintConfig != nil
+//@   ensures breaking: err == nil ==> r.breakingConfig == breakingConfig && breakingConfig != nil
+//@   ensures versions-agree: err == nil ==> lintConfig.FileVersion() == breakingConfig.FileVersion()
+//@   ensures v1-dir-is-dot: err == nil && (lintConfig.FileVersion() == FileVersionV1Beta1 || lintConfig.FileVersion() == FileVersionV1) ==> r.dirPath == "."
+//@   ensures single-root: err == nil && (lintConfig.FileVersion() == FileVersionV1 || lintConfig.FileVersion() == FileVersionV2) ==> len(old(rootToExcludes)) == 1 && "." in old(rootToExcludes)
+//@   ensures include-roots: err == nil ==> (forall k string :: (k in r.rootToIncludes) <==> (k in old(rootToIncludes)))
+//@   ensures includes: err == nil ==> (forall k string :: k in old(rootToIncludes) ==> e_normSet(r.rootToIncludes[k], old(rootToIncludes)[k]) && e_sorted(r.rootToIncludes[k]) && e_allValid(r.rootToIncludes[k]))
+//@   ensures includes-only-normalized: forall k string, q int :: err == nil && k in old(rootToIncludes) && 0 <= q && q < len(r.rootToIncludes[k]) ==> validRel(r.rootToIncludes[k][q]) && (exists j int :: 0 <= j && j < len(old(rootToIncludes)[k]) && r.rootToIncludes[k][q] == normalpath.Normalize(old(rootToIncludes)[k][j]) && (validRel(old(rootToIncludes)[k][j]) ==> r.rootToIncludes[k][q] == old(rootToIncludes)[k][j]))
+//@   ensures includes-all-normalized: forall k string, j int :: err == nil && k in old(rootToIncludes) && 0 <= j && j < len(old(rootToIncludes)[k]) ==> (exists q int :: 0 <= q && q < len(r.rootToIncludes[k]) && r.rootToIncludes[k][q] == normalpath.Normalize(old(rootToIncludes)[k][j]) && (validRel(old(rootToIncludes)[k][j]) ==> r.rootToIncludes[k][q] == old(rootToIncludes)[k][j]))
+//@   ensures excludes-only-normalized: forall k string, q int :: err == nil && k in old(rootToExcludes) && 0 <= q && q < len(r.rootToExcludes[k]) ==> validRel(r.rootToExcludes[k][q]) && (exists j int :: 0 <= j && j < len(old(rootToExcludes)[k]) && r.rootToExcludes[k][q] == normalpath.Normalize(old(rootToExcludes)[k][j]) && (validRel(old(rootToExcludes)[k][j]) ==> r.rootToExcludes[k][q] == old(rootToExcludes)[k][j]))
+//@   ensures excludes-all-normalized: forall k string, j int :: err == nil && k in old(rootToExcludes) && 0 <= j && j < len(old(rootToExcludes)[k]) ==> (exists q int :: 0 <= q && q < len(r.rootToExcludes[k]) && r.rootToExcludes[k][q] == normalpath.Normalize(old(rootToExcludes)[k][j]) && (validRel(old(rootToExcludes)[k][j]) ==> r.rootToExcludes[k][q] == old(rootToExcludes)[k][j]))
+//@   ensures empty-includes-stay-empty: forall k string, i int :: err == nil && k in old(rootToIncludes) && len(old(rootToIncludes)[k]) == 0 && 0 <= i ==> !(i < len(r.rootToIncludes[k]))
+//@   ensures empty-excludes-stay-empty: forall k string, i int :: err == nil && k in old(rootToExcludes) && len(old(rootToExcludes)[k]) == 0 && 0 <= i ==> !(i < len(r.rootToExcludes[k]))
+//@   ensures lengths: err == nil ==> (forall k string :: k in r.rootToIncludes ==> len(r.rootToIncludes[k]) >= 0) && (forall k string :: k in r.rootToExcludes ==> len(r.rootToExcludes[k]) >= 0)
+//@   ensures exclude-roots: err == nil ==> (forall k string :: (k in r.rootToExcludes) <==> (k in old(rootToExcludes)))
+//@   ensures excludes: err == nil ==> (forall k string :: k in old(rootToExcludes) ==> e_normSet(r.rootToExcludes[k], old(rootToExcludes)[k]) && e_sorted(r.rootToExcludes[k]) && e_allValid(r.rootToExcludes[k]))
+//@   loop 0 invariant include-roots: newRootToIncludes != nil && (forall k string :: (k in newRootToIncludes) <==> (k in $visited)) && (forall k string :: k in $visited ==> k in rootToIncludes)
+//@   loop 0 invariant includes-only-normalized: forall k string, q int :: k in newRootToIncludes && 0 <= q && q < len(newRootToIncludes[k]) ==> validRel(newRootToIncludes[k][q]) && (exists j int :: 0 <= j && j < len(rootToIncludes[k]) && newRootToIncludes[k][q] == normalpath.Normalize(rootToIncludes[k][j]))
+//@   loop 0 invariant includes-all-normalized: forall k string, j int :: k in newRootToIncludes && 0 <= j && j < len(rootToIncludes[k]) ==> (exists q int :: 0 <= q && q < len(newRootToIncludes[k]) && newRootToIncludes[k][q] == normalpath.Normalize(rootToIncludes[k][j]))
+//@   loop 0 invariant includes-sorted: forall k string, a int, b int :: k in newRootToIncludes && 0 <= a && a < b && b < len(newRootToIncludes[k]) ==> newRootToIncludes[k][a] <= newRootToIncludes[k][b]
+//@   loop 0 invariant lengths: forall k string :: k in newRootToIncludes ==> len(newRootToIncludes[k]) >= 0
+//@   loop 1 invariant lengths: forall k string :: k in newRootToExcludes ==> len(newRootToExcludes[k]) >= 0
+//@   loop 0 invariant empty-stays-empty: forall k string, i int :: k in newRootToIncludes && len(rootToIncludes[k]) == 0 && 0 <= i ==> !(i < len(newRootToIncludes[k]))
+//@   loop 1 invariant empty-stays-empty: forall k string, i int :: k in newRootToExcludes && len(rootToExcludes[k]) == 0 && 0 <= i ==> !(i < len(newRootToExcludes[k]))
+//@   loop 1 invariant exclude-roots: newRootToExcludes != nil && (forall k string :: (k in newRootToExcludes) <==> (k in $visited)) && (forall k string :: k in $visited ==> k in rootToExcludes)
+//@   loop 1 invariant excludes-only-normalized: forall k string, q int :: k in newRootToExcludes && 0 <= q && q < len(newRootToExcludes[k]) ==> validRel(newRootToExcludes[k][q]) && (exists j int :: 0 <= j && j < len(rootToExcludes[k]) && newRootToExcludes[k][q] == normalpath.Normalize(rootToExcludes[k][j]))
+//@   loop 1 invariant excludes-all-normalized: forall k string, j int :: k in newRootToExcludes && 0 <= j && j < len(rootToExcludes[k]) ==> (exists q int :: 0 <= q && q < len(newRootToExcludes[k]) && newRootToExcludes[k][q] == normalpath.Normalize(rootToExcludes[k][j]))
+//@   loop 1 invariant excludes-sorted: forall k string, a int, b int :: k in newRootToExcludes && 0 <= a && a < b && b < len(newRootToExcludes[k]) ==> newRootToExcludes[k][a] <= newRootToExcludes[k][b]
+//@ func NewModuleConfig(dirPath, moduleFullName, rootToIncludes, rootToExcludes, lintConfig, breakingConfig) (r, err)
+//@   property C16
+//@   ensures typed: err == nil ==> r != nil && cast(*moduleConfig, r) != nil
+//@   ensures dir-path: err == nil ==> cast(*moduleConfig, r).dirPath == normalpath.Normalize(dirPath) && validRel(cast(*moduleConfig, r).dirPath)
+//@   ensures name: err == nil ==> cast(*moduleConfig, r).moduleFullName == moduleFullName
+//@   ensures checks: err == nil ==> cast(*moduleConfig, r).lintConfig == lintConfig && cast(*moduleConfig, r).breakingConfig == breakingConfig
+//@   ensures include-roots: forall k string :: err == nil ==> ((k in cast(*moduleConfig, r).rootToIncludes) <==> (k in old(rootToIncludes)))
+//@   ensures includes: forall k string :: err == nil && k in old(rootToIncludes) ==> e_normSet(cast(*moduleConfig, r).rootToIncludes[k], old(rootToIncludes)[k]) && e_sorted(cast(*moduleConfig, r).rootToIncludes[k]) && e_allValid(cast(*moduleConfig, r).rootToIncludes[k])
+//@   ensures exclude-roots: forall k string :: err == nil ==> ((k in cast(*moduleConfig, r).rootToExcludes) <==> (k in old(rootToExcludes)))
+//@   ensures excludes: forall k string :: err == nil && k in old(rootToExcludes) ==> e_normSet(cast(*moduleConfig, r).rootToExcludes[k], old(rootToExcludes)[k]) && e_sorted(cast(*moduleConfig, r).rootToExcludes[k]) && e_allValid(cast(*moduleConfig, r).rootToExcludes[k])
+//@ func (m *moduleConfig) DirPath() (r)
+//@   property C16
+//@   ensures r == m.dirPath
+//@ func (m *moduleConfig) FullName() (r)
+//@   property C16
+//@   ensures r == m.moduleFullName
+//@ func (m *moduleConfig) LintConfig() (r)
+//@   property C16
+//@   ensures r == m.lintConfig
+//@ func (m *moduleConfig) BreakingConfig() (r)
+//@   property C16
+//@   ensures r == m.breakingConfig
+//@ func (m *moduleConfig) RootToIncludes() (r)
+//@   property C16
+//@   ensures same-keys: forall k string :: (k in r) <==> (k in m.rootToIncludes)
+//@   ensures same-values: forall k string :: k in r ==> r[k] == m.rootToIncludes[k]
+//@ func (m *moduleConfig) RootToExcludes() (r)
+//@   property C16
+//@   ensures same-keys: forall k string :: (k in r) <==> (k in m.rootToExcludes)
+//@   ensures same-values: forall k string :: k in r ==> r[k] == m.rootToExcludes[k]
+//
+// `deps`: one reference per entry, in order, each the parse of its entry; an entry that does not parse is an error.
+//@ func getConfiguredDepModuleRefsForExternalDeps(externalDeps) (r, err)
+//@   property C16
+//@   ensures elementwise: err == nil ==> len(r) == len(externalDeps) && (forall i int :: 0 <= i && i < len(externalDeps) ==> second(bufparse.ParseRef(externalDeps[i])) == nil && r[i] == first(bufparse.ParseRef(externalDeps[i])))
+//@   ensures invalid-rejected: (exists i int :: 0 <= i && i < len(externalDeps) && second(bufparse.ParseRef(externalDeps[i])) != nil) ==> err != nil
+//@   loop 0 invariant parsed-so-far: len(configuredDepModuleRefs) == len(externalDeps) && (forall j int :: 0 <= j && j < $i ==> second(bufparse.ParseRef(externalDeps[j])) == nil && configuredDepModuleRefs[j] == first(bufparse.ParseRef(externalDeps[j])))
+//@   canary ensures err != nil
+//
+// The buf.yaml object. Documented on BufYAMLFile: at least one module config; exactly one, with DirPath ".", for
+// v1beta1/v1; module configs sorted by DirPath; every check config of the file's version; module names unique;
+// configured deps unique by name and sorted by name. Everything else is stored as given.
+//@ trusted pure interface PluginConfig
+//@ func newBufYAMLFile(fileVersion, objectData, moduleConfigs, topLevelLintConfig, topLevelBreakingConfig, pluginConfigs, configuredDepModuleRefs, includeDocsLink) (r, err)
+//@   property C16
+//@   ensures fresh: err == nil ==> r != nil
+//@   ensures error-nil: err != nil ==> r == nil
+//@   ensures no-modules-rejected: len(moduleConfigs) == 0 ==> err != nil
+//@   ensures v1-single-module: (fileVersion == FileVersionV1Beta1 || fileVersion == FileVersionV1) && len(moduleConfigs) > 1 ==> err != nil
+//@   ensures v1-dir-is-dot: err == nil && (fileVersion == FileVersionV1Beta1 || fileVersion == FileVersionV1) ==> (forall j int :: 0 <= j && j < len(moduleConfigs) ==> moduleConfigs[j].DirPath() == ".")
+//@   ensures check-versions: err == nil ==> (forall j int :: 0 <= j && j < len(moduleConfigs) ==> moduleConfigs[j] != nil && moduleConfigs[j].LintConfig().FileVersion() == fileVersion && moduleConfigs[j].BreakingConfig().FileVersion() == fileVersion)
+//@   ensures module-names-unique: err == nil ==> (forall a int, b int :: 0 <= a && a < b && b < len(moduleConfigs) && moduleConfigs[a].FullName() != nil && moduleConfigs[b].FullName() != nil ==> moduleConfigs[a].FullName().String() != moduleConfigs[b].FullName().String())
+//@   ensures dep-names-unique: err == nil ==> (forall a int, b int :: 0 <= a && a < b && b < len(configuredDepModuleRefs) && configuredDepModuleRefs[a].FullName() != nil && configuredDepModuleRefs[b].FullName() != nil ==> configuredDepModuleRefs[a].FullName().String() != configuredDepModuleRefs[b].FullName().String())
+//@   ensures version: err == nil ==> r.fileVersion == fileVersion
+//@   ensures object-data: err == nil ==> r.objectData == objectData
+//@   ensures top-level-checks: err == nil ==> r.topLevelLintConfig == topLevelLintConfig && r.topLevelBreakingConfig == topLevelBreakingConfig
+//@   ensures plugins: err == nil ==> r.pluginConfigs == pluginConfigs
+//@   ensures docs-link: err == nil ==> r.includeDocsLink == includeDocsLink
+//@   ensures modules-kept: err == nil ==> len(r.moduleConfigs) == len(moduleConfigs) && (forall i int :: 0 <= i && i < len(moduleConfigs) ==> (exists j int :: 0 <= j && j < len(moduleConfigs) && r.moduleConfigs[i] == moduleConfigs[j])) && (forall j int :: 0 <= j && j < len(moduleConfigs) ==> (exists i int :: 0 <= i && i < len(moduleConfigs) && r.moduleConfigs[i] == moduleConfigs[j]))
+//@   ensures modules-sorted: err == nil ==> (forall a int, b int :: 0 <= a && a < b && b < len(r.moduleConfigs) ==> r.moduleConfigs[a].DirPath() <= r.moduleConfigs[b].DirPath())
+//@   ensures deps-kept: err == nil ==> len(r.configuredDepModuleRefs) == len(configuredDepModuleRefs) && (forall i int :: 0 <= i && i < len(configuredDepModuleRefs) ==> (exists j int :: 0 <= j && j < len(configuredDepModuleRefs) && r.configuredDepModuleRefs[i] == configuredDepModuleRefs[j])) && (forall j int :: 0 <= j && j < len(configuredDepModuleRefs) ==> (exists i int :: 0 <= i && i < len(configuredDepModuleRefs) && r.configuredDepModuleRefs[i] == configuredDepModuleRefs[j]))
+//@   ensures deps-sorted: err == nil ==> (forall a int, b int :: 0 <= a && a < b && b < len(r.configuredDepModuleRefs) ==> r.configuredDepModuleRefs[a].FullName().String() <= r.configuredDepModuleRefs[b].FullName().String())
+//@   loop 0 invariant checked-so-far: forall j int :: 0 <= j && j < $i ==> moduleConfigs[j] != nil && ((fileVersion == FileVersionV1Beta1 || fileVersion == FileVersionV1) ==> moduleConfigs[j].DirPath() == ".") && moduleConfigs[j].LintConfig().FileVersion() == fileVersion && moduleConfigs[j].BreakingConfig().FileVersion() == fileVersion
+//@   canary ensures err != nil
+//@ func (c *bufYAMLFile) FileVersion() (r)
+//@   property C16
+//@   ensures r == c.fileVersion
+//@ func (c *bufYAMLFile) ObjectData() (r)
+//@   property C16
+//@   ensures r == c.objectData
+//@ func (c *bufYAMLFile) ModuleConfigs() (r)
+//@   property C16
+//@   ensures r == c.moduleConfigs
+//@ func (c *bufYAMLFile) TopLevelLintConfig() (r)
+//@   property C16
+//@   ensures r == c.topLevelLintConfig
+//@ func (c *bufYAMLFile) TopLevelBreakingConfig() (r)
+//@   property C16
+//@   ensures r == c.topLevelBreakingConfig
+//@ func (c *bufYAMLFile) PluginConfigs() (r)
+//@   property C16
+//@   ensures r == c.pluginConfigs
+//@ func (c *bufYAMLFile) ConfiguredDepModuleRefs() (r)
+//@   property C16
+//@   ensures r == c.configuredDepModuleRefs
+//@ func (c *bufYAMLFile) IncludeDocsLink() (r)
+//@   property C16
+//@   ensures r == c.includeDocsLink
+//
+// build.roots / build.excludes (v1beta1, v1) and the per-module excludes (v2, roots == ["."]) -> RootToExcludes.
+// Documented on ModuleConfig.RootToExcludes and in the buf.yaml reference: no roots means the single root ".";
+// roots are normalized, validated and do not overlap; every exclude must lie strictly inside exactly one root and
+// is stored relative to that root; the lists are sorted. ghost.z_rawExcludes: see /verif/specs/C16_files.spec.
+//@ func getRootToExcludes(roots, fullExcludes) (r, err)
+//@   property C16
+//@   modifies ghost.z_rawExcludes
+//@   reveal e_normSet, e_sorted, e_allValid, e_noOverlap
+//@   use e_valid-clean, z_dot-valid, z_relTo-dot
+//@   ghost before "for root, excludes := range rootToExcludes" z_rawExcludes := rootToExcludes
+//@   ensures default-root: forall k string :: err == nil && len(roots) == 0 ==> ((k in r) <==> (k == "."))
+//@   ensures roots: forall k string :: err == nil && len(roots) > 0 ==> ((k in r) <==> (exists j int :: 0 <= j && j < len(roots) && k == normalpath.Normalize(roots[j])))
+//@   ensures single-dot-root: forall k string :: err == nil && len(roots) == 1 && roots[0] == "." ==> ((k in r) <==> (k == "."))
+//@   ensures dot-root-excludes: forall q int :: err == nil && len(roots) == 1 && roots[0] == "." && 0 <= q && q < len(r["."]) ==> validRel(r["."][q]) && (exists j int :: 0 <= j && j < len(fullExcludes) && r["."][q] == normalpath.Normalize(fullExcludes[j]) && (validRel(fullExcludes[j]) ==> r["."][q] == fullExcludes[j]))
+//@   ensures roots-valid: err == nil ==> r != nil && (forall k string :: k in r ==> validRel(k) && len(r[k]) >= 0)
+//@   ensures roots-no-overlap: err == nil ==> (forall k1 string, k2 string :: k1 in r && k2 in r && k1 != k2 ==> !ancOrSelf(k1, k2))
+//@   ensures no-excludes: err == nil && len(fullExcludes) == 0 ==> (forall k string :: k in r ==> len(r[k]) == 0)
+//@   ensures only-rebased: forall k string, q int :: err == nil && k in r && 0 <= q && q < len(r[k]) ==> validRel(r[k][q]) && (exists j int :: 0 <= j && j < len(fullExcludes) && ancOrSelf(k, normalpath.Normalize(fullExcludes[j])) && normalpath.Normalize(fullExcludes[j]) != k && r[k][q] == e_relTo(k, normalpath.Normalize(fullExcludes[j])))
+//@   ensures sorted: err == nil ==> (forall k string :: k in r ==> e_sorted(r[k]))
+//@   ensures excludes-valid: err == nil ==> (forall j int :: 0 <= j && j < len(fullExcludes) ==> second(normalpath.NormalizeAndValidate(fullExcludes[j])) == nil && !(normalpath.Normalize(fullExcludes[j]) in r))
+//@   ensures raw-complete: err == nil && len(fullExcludes) > 0 ==> (forall j int :: 0 <= j && j < len(fullExcludes) ==> (exists k string, q int :: k in ghost.z_rawExcludes && 0 <= q && q < len(ghost.z_rawExcludes[k]) && ancOrSelf(k, normalpath.Normalize(fullExcludes[j])) && ghost.z_rawExcludes[k][q] == e_relTo(k, normalpath.Normalize(fullExcludes[j]))))
+//@   ensures count-kept: err == nil && len(fullExcludes) > 0 ==> (forall k string :: (k in r) <==> (k in ghost.z_rawExcludes)) && (forall k string :: k in r ==> len(r[k]) == len(ghost.z_rawExcludes[k]) && (forall q int :: 0 <= q && q < len(r[k]) ==> (exists p int :: 0 <= p && p < len(ghost.z_rawExcludes[k]) && ghost.z_rawExcludes[k][p] == r[k][q])))
+//@   ensures invalid-root-rejected: (exists j int :: 0 <= j && j < len(roots) && second(normalpath.NormalizeAndValidate(roots[j])) != nil) ==> err != nil
+//@   loop 0 invariant roots-so-far: rootToExcludes != nil && (forall k string :: (k in rootToExcludes) <==> (exists j int :: 0 <= j && j < $i && roots[j] == k)) && (forall k string :: k in rootToExcludes ==> len(rootToExcludes[k]) == 0)
+//@   loop 1 invariant none-is-root: forall j int :: 0 <= j && j < $i ==> !(fullExcludes[j] in rootToExcludes)
+//@   loop 2 invariant keys-fixed: rootToExcludes != nil && (forall k string :: (k in rootToExcludes) <==> (k in rootMap))
+//@   loop 2 invariant only-rebased: forall k string, q int :: k in rootToExcludes && 0 <= q && q < len(rootToExcludes[k]) ==> validRel(rootToExcludes[k][q]) && (exists j int :: 0 <= j && j < $i && ancOrSelf(k, fullExcludes[j]) && fullExcludes[j] != k && rootToExcludes[k][q] == e_relTo(k, fullExcludes[j]))
+//@   loop 2 invariant keys-valid: forall k string :: k in rootToExcludes ==> validRel(k) && len(rootToExcludes[k]) >= 0
+//@   loop 2 invariant some-root: forall j int :: 0 <= j && j < $i ==> (exists k string :: k in rootToExcludes && ancOrSelf(k, fullExcludes[j]))
+//@   loop 2 invariant all-rebased: forall j int, k string :: 0 <= j && j < $i && k in rootToExcludes && ancOrSelf(k, fullExcludes[j]) ==> (exists q int :: 0 <= q && q < len(rootToExcludes[k]) && rootToExcludes[k][q] == e_relTo(k, fullExcludes[j]))
+//@   assert before "rootToExcludes[root] = append(rootToExcludes[root], exclude)" rebased-onto-its-only-root: root in rootToExcludes && ancOrSelf(root, fullExclude) && root != fullExclude && exclude == e_relTo(root, fullExclude) && validRel(exclude) && (forall k string :: k in rootToExcludes && ancOrSelf(k, fullExclude) ==> k == root)
+//@   loop 3 invariant keys-fixed: rootToExcludes != nil && (forall k string :: (k in rootToExcludes) <==> (k in $entry(rootToExcludes)))
+//@   loop 3 invariant keys-valid: forall k string :: k in rootToExcludes ==> validRel(k)
+//@   loop 3 invariant unvisited-unchanged: forall k string :: k in rootToExcludes && !(k in $visited) ==> rootToExcludes[k] == $entry(rootToExcludes)[k]
+//@   loop 3 invariant visited-sorted-subset: forall k string :: k in rootToExcludes && k in $visited ==> len(rootToExcludes[k]) == len($entry(rootToExcludes)[k]) && e_sorted(rootToExcludes[k]) && (forall q int :: 0 <= q && q < len(rootToExcludes[k]) ==> (exists p int :: 0 <= p && p < len($entry(rootToExcludes)[k]) && $entry(rootToExcludes)[k][p] == rootToExcludes[k][q]))
+//
+// Reader. The external values are recorded by ghost code right after decoding (z_yaml*). The function has some 250
+// paths, so the per-version statements are assertions at the point where the file object is built from the parts
+// (`return newBufYAMLFile(...)`, contract above: everything is stored as given, modules sorted by directory, deps by
+// name) rather than postconditions that every path would have to re-prove.
+// v1beta1 / v1: exactly one module config, at ".", named as `name` says (no name: nil); its roots are build.roots
+// (none: ".") normalized, build.roots is refused for v1; every stored exclude is a build.exclude re-based onto the
+// root that contains it (completeness: getRootToExcludes#post[raw-complete], [count-kept]); includes exist for the same
+// roots and are empty; deps are the parsed `deps` in order; the module's lint and breaking configs are the file's
+// (their content: contracts in zz_verif_contracts.go).
+//@ func readBufYAMLFile(data, objectData, allowJSON) (r, err)
+//@   property C16
+//@   modifies heap, ghost.fail, ghost.wfail, ghost.z_rawExcludes, ghost.z_yamlName, ghost.z_yamlDeps, ghost.z_yamlRoots, ghost.z_yamlExcludes
+//@   use z_dot-valid, e_valid-clean, z_inside-not-dot
+//@   reveal e_normSet, e_sorted, e_allValid
+//@   ghost before "if fileVersion == FileVersionV1 && len(externalBufYAMLFile.Build.Roots)" z_yamlName := externalBufYAMLFile.Name
+//@   ghost before "if fileVersion == FileVersionV1 && len(externalBufYAMLFile.Build.Roots)" z_yamlDeps := externalBufYAMLFile.Deps
+//@   ghost before "if fileVersion == FileVersionV1 && len(externalBufYAMLFile.Build.Roots)" z_yamlRoots := externalBufYAMLFile.Build.Roots
+//@   ghost before "if fileVersion == FileVersionV1 && len(externalBufYAMLFile.Build.Roots)" z_yamlExcludes := externalBufYAMLFile.Build.Excludes
+//@   ensures typed: err == nil ==> r != nil && cast(*bufYAMLFile, r) != nil
+//@   ensures object-data: err == nil ==> cast(*bufYAMLFile, r).objectData == objectData
+//@   loop 0 invariant include-roots: rootToIncludes != nil && (forall k string :: (k in rootToIncludes) <==> (k in $visited)) && (forall k string :: k in $visited ==> k in rootToExcludes) && (forall k string :: k in rootToIncludes ==> len(rootToIncludes[k]) == 0)
+//@   assert before "return newBufYAMLFile("@1 v1-version: fileVersion == FileVersionV1Beta1 || fileVersion == FileVersionV1
+// (v1-dir: Normalize("") is "." -- filepath.Clean -- which the contract of normalpath.Normalize does not state)
+//@   assert before "return newBufYAMLFile("@1 v1-dir: moduleConfig != nil && moduleConfig.dirPath == normalpath.Normalize("")
+//@   assert before "return newBufYAMLFile("@1 v1-name: (ghost.z_yamlName == "" ==> moduleConfig.moduleFullName == nil) && (ghost.z_yamlName != "" ==> moduleConfig.moduleFullName == first(bufparse.ParseFullName(ghost.z_yamlName)))
+//@   assert before "return newBufYAMLFile("@1 v1-no-roots: fileVersion == FileVersionV1 ==> len(ghost.z_yamlRoots) == 0
+//@   assert before "return newBufYAMLFile("@1 v1-default-root: len(ghost.z_yamlRoots) == 0 ==> (forall k string :: (k in moduleConfig.rootToExcludes) <==> (k == "."))
+//@   assert before "return newBufYAMLFile("@1 v1-roots: len(ghost.z_yamlRoots) > 0 ==> (forall k string :: (k in moduleConfig.rootToExcludes) <==> (exists j int :: 0 <= j && j < len(ghost.z_yamlRoots) && k == normalpath.Normalize(ghost.z_yamlRoots[j])))
+//@   assert before "return newBufYAMLFile("@1 v1-excludes-only-rebased: forall k string, q int :: k in moduleConfig.rootToExcludes && 0 <= q && q < len(moduleConfig.rootToExcludes[k]) ==> (exists j int :: 0 <= j && j < len(ghost.z_yamlExcludes) && ancOrSelf(k, normalpath.Normalize(ghost.z_yamlExcludes[j])) && normalpath.Normalize(ghost.z_yamlExcludes[j]) != k && moduleConfig.rootToExcludes[k][q] == e_relTo(k, normalpath.Normalize(ghost.z_yamlExcludes[j])))
+//@   assert before "return newBufYAMLFile("@1 v1-excludes-raw-complete: forall j int :: 0 <= j && j < len(ghost.z_yamlExcludes) ==> (exists k string, q int :: k in ghost.z_rawExcludes && 0 <= q && q < len(ghost.z_rawExcludes[k]) && ancOrSelf(k, normalpath.Normalize(ghost.z_yamlExcludes[j])) && ghost.z_rawExcludes[k][q] == e_relTo(k, normalpath.Normalize(ghost.z_yamlExcludes[j])))
+//@   assert before "return newBufYAMLFile("@1 v1-excludes-count-kept: len(ghost.z_yamlExcludes) > 0 ==> (forall k string :: (k in rootToExcludes) <==> (k in ghost.z_rawExcludes)) && (forall k string :: k in rootToExcludes ==> len(rootToExcludes[k]) == len(ghost.z_rawExcludes[k]))
+//@   assert before "return newBufYAMLFile("@1 v1-excludes-all-kept: forall k string, q int :: k in rootToExcludes && 0 <= q && q < len(rootToExcludes[k]) ==> (exists p int :: 0 <= p && p < len(moduleConfig.rootToExcludes[k]) && moduleConfig.rootToExcludes[k][p] == rootToExcludes[k][q])
+//@   assert before "return newBufYAMLFile("@1 v1-include-roots: forall k string :: (k in moduleConfig.rootToIncludes) <==> (k in moduleConfig.rootToExcludes)
+// (no include list has an element; stated over indices so that the instantiation is found)
+//@   assert before "return newBufYAMLFile("@1 v1-includes-empty: forall k string, i int :: k in moduleConfig.rootToIncludes && 0 <= i ==> !(i < len(moduleConfig.rootToIncludes[k]))
+//@   assert before "return newBufYAMLFile("@1 v1-checks: moduleConfig.lintConfig == lintConfig && moduleConfig.breakingConfig == breakingConfig
+//@   assert before "return newBufYAMLFile("@1 v1-deps: len(configuredDepModuleRefs) == len(ghost.z_yamlDeps) && (forall j int :: 0 <= j && j < len(ghost.z_yamlDeps) ==> configuredDepModuleRefs[j] == first(bufparse.ParseRef(ghost.z_yamlDeps[j])))
+// v2: no `modules` means one module at "." named by the top-level `name`; otherwise `name` must be empty. Per external
+// module, in order, one module config (invariants of loop 1, j-th config vs j-th external module):
+//   directory = the normalized `path` ("" means "."); name = the parsed `name` (none: nil);
+//   the only root is "."; the includes are exactly the `includes`, each strictly inside the module directory, stored
+//   relative to it; every stored exclude is one of the `excludes`, strictly inside the module directory, stored
+//   relative to it (that none is lost: getRootToExcludes#post[raw-complete], [count-kept]).
+// closure 0 / closure 1 are the two path conversions handed to slicesext.MapError; documented there as well: an
+// exclude must lie inside some include (if there are includes) and must not equal or contain one.
+// (what the two literals assume about their captured variables and their argument is asserted at the statements that
+// create them: closure-requires-0 / closure-requires-1; MapError applies its callback to the elements of its first
+// argument only, see its contract)
+//@   assert before "relIncludes, err := slicesext.MapError(" closure-requires-0: validRel(dirPath) && (forall p int :: 0 <= p && p < len(normalIncludes) ==> validRel(normalIncludes[p]))
+//@   assert before "relExcludes, err := slicesext.MapError(" closure-requires-1: validRel(dirPath) && (forall p int :: 0 <= p && p < len(normalIncludes) ==> validRel(normalIncludes[p]) && normalIncludes[p] != dirPath && ancOrSelf(dirPath, normalIncludes[p]))
+//@   closure 0 requires validRel(normalInclude) && validRel(dirPath)
+//@   closure 1 requires validRel(dirPath) && (forall p int :: 0 <= p && p < len(normalIncludes) ==> validRel(normalIncludes[p]) && normalIncludes[p] != dirPath && ancOrSelf(dirPath, normalIncludes[p]))
+//@   closure 0 ensures include-inside-rebased: err == nil ==> normalInclude != dirPath && ancOrSelf(dirPath, normalInclude) && r == e_relTo(dirPath, normalInclude) && validRel(r)
+//@   closure 0 ensures include-outside-rejected: normalInclude == dirPath || !ancOrSelf(dirPath, normalInclude) ==> err != nil
+//@   closure 1 ensures exclude-inside-rebased: err == nil ==> second(normalpath.NormalizeAndValidate(normalExclude)) == nil && normalpath.Normalize(normalExclude) != dirPath && ancOrSelf(dirPath, normalpath.Normalize(normalExclude)) && r == e_relTo(dirPath, normalpath.Normalize(normalExclude)) && validRel(r)
+//@   closure 1 ensures exclude-within-an-include: err == nil && len(normalIncludes) > 0 ==> (exists p int :: 0 <= p && p < len(normalIncludes) && normalIncludes[p] != normalpath.Normalize(normalExclude) && ancOrSelf(normalIncludes[p], normalpath.Normalize(normalExclude)))
+//@   closure 1 ensures exclude-contains-no-include: err == nil ==> (forall p int :: 0 <= p && p < len(normalIncludes) ==> !ancOrSelf(normalpath.Normalize(normalExclude), normalIncludes[p]))
+//@   loop 2 invariant found-is-witnessed: foundContainingInclude ==> (exists p int :: 0 <= p && p < $i2 && normalIncludes[p] != normalExclude && ancOrSelf(normalIncludes[p], normalExclude))
+//@   loop 2 invariant none-contained-so-far: forall p int :: 0 <= p && p < $i2 ==> !ancOrSelf(normalExclude, normalIncludes[p])
+//@   assert before "defaultExternalLintConfig := externalBufYAMLFile.Lint" v2-default-module: len(externalBufYAMLFile.Modules) == 0 ==> len(externalModules) == 1 && externalModules[0].Path == "." && externalModules[0].Name == externalBufYAMLFile.Name && len(externalModules[0].Includes) == 0 && len(externalModules[0].Excludes) == 0
+//@   assert before "defaultExternalLintConfig := externalBufYAMLFile.Lint" v2-modules-as-given: len(externalBufYAMLFile.Modules) > 0 ==> externalModules == externalBufYAMLFile.Modules && externalBufYAMLFile.Name == ""
+//@   loop 1 invariant one-config-per-module: len(moduleConfigs) == $i && (forall j int :: 0 <= j && j < $i ==> cast(*moduleConfig, moduleConfigs[j]) != nil)
+//@   loop 1 invariant dir: forall j int :: 0 <= j && j < $i ==> validRel(cast(*moduleConfig, moduleConfigs[j]).dirPath) && cast(*moduleConfig, moduleConfigs[j]).dirPath == normalpath.Normalize(ite(externalModules[j].Path == "", ".", externalModules[j].Path))
+//@   loop 1 invariant name: forall j int :: 0 <= j && j < $i ==> (externalModules[j].Name == "" ==> cast(*moduleConfig, moduleConfigs[j]).moduleFullName == nil) && (externalModules[j].Name != "" ==> cast(*moduleConfig, moduleConfigs[j]).moduleFullName == first(bufparse.ParseFullName(externalModules[j].Name)))
+//@   loop 1 invariant single-root: forall j int, k string :: 0 <= j && j < $i ==> ((k in cast(*moduleConfig, moduleConfigs[j]).rootToIncludes) <==> (k == ".")) && ((k in cast(*moduleConfig, moduleConfigs[j]).rootToExcludes) <==> (k == "."))
+//@   assert before "return newBufYAMLFile("@2 v2-version: fileVersion == FileVersionV2
+//@   assert before "return newBufYAMLFile("@2 v2-one-config-per-module: len(moduleConfigs) == len(externalModules) && len(externalModules) > 0
+//@   assert before "return newBufYAMLFile("@2 v2-deps: len(configuredDepModuleRefs) == len(externalBufYAMLFile.Deps) && (forall j int :: 0 <= j && j < len(externalBufYAMLFile.Deps) ==> configuredDepModuleRefs[j] == first(bufparse.ParseRef(externalBufYAMLFile.Deps[j])))
+//@   loop 3 invariant one-per-plugin: len(pluginConfigs) == $i
+// (The include / exclude relations are per-iteration assertions -- built-includes-only, built-includes-all,
+// built-excludes-only below: they hold for every module at the moment it is built, and nothing writes a module
+// config afterwards. Carrying them as invariants over all earlier modules was tried: it needs the split "modules before
+// the last one / the last module built" to discharge at all (the solver does not find the case distinction on j in
+// this large context), and then costs 4-5 s per path query on 32 paths; dropped for the time budget.)
+// stepping stones inside one iteration of loop 1 (the facts the invariants above need about the module just built);
+// (the root "." is written as a quantified k == "." so that the callee's clauses are instantiated at it)
+//@   assert before "rootToIncludes := map[string][]string" rel-includes: len(relIncludes) == len(normalIncludes) && (forall i int :: 0 <= i && i < len(normalIncludes) ==> normalIncludes[i] != dirPath && ancOrSelf(dirPath, normalIncludes[i]) && relIncludes[i] == e_relTo(dirPath, normalIncludes[i]) && validRel(relIncludes[i]))
+//@   assert before "rootToIncludes := map[string][]string" rel-includes-only-external: forall i int :: 0 <= i && i < len(relIncludes) ==> validRel(relIncludes[i]) && (exists p int :: 0 <= p && p < len(externalModule.Includes) && normalpath.Normalize(externalModule.Includes[p]) != dirPath && ancOrSelf(dirPath, normalpath.Normalize(externalModule.Includes[p])) && relIncludes[i] == e_relTo(dirPath, normalpath.Normalize(externalModule.Includes[p])))
+//@   assert before "rootToIncludes := map[string][]string" rel-includes-all-external: forall p int :: 0 <= p && p < len(externalModule.Includes) ==> (exists i int :: 0 <= i && i < len(relIncludes) && relIncludes[i] == e_relTo(dirPath, normalpath.Normalize(externalModule.Includes[p])))
+//@   assert before "rootToExcludes, err := getRootToExcludes([]string" rel-excludes: len(relExcludes) == len(externalModule.Excludes) && (forall i int :: 0 <= i && i < len(externalModule.Excludes) ==> normalpath.Normalize(externalModule.Excludes[i]) != dirPath && ancOrSelf(dirPath, normalpath.Normalize(externalModule.Excludes[i])) && relExcludes[i] == e_relTo(dirPath, normalpath.Normalize(externalModule.Excludes[i])) && validRel(relExcludes[i]))
+//@   assert before "externalLintConfig := defaultExternalLintConfig" root-excludes-keys: forall k string :: (k in rootToExcludes) <==> (k == ".")
+//@   assert before "externalLintConfig := defaultExternalLintConfig" root-excludes-from-rel: forall q int :: 0 <= q && q < len(rootToExcludes["."]) ==> validRel(rootToExcludes["."][q]) && (exists p int :: 0 <= p && p < len(relExcludes) && rootToExcludes["."][q] == relExcludes[p])
+//@   assert before "externalLintConfig := defaultExternalLintConfig" root-excludes-only-external: forall q int :: 0 <= q && q < len(rootToExcludes["."]) ==> validRel(rootToExcludes["."][q]) && (exists p int :: 0 <= p && p < len(externalModule.Excludes) && normalpath.Normalize(externalModule.Excludes[p]) != dirPath && ancOrSelf(dirPath, normalpath.Normalize(externalModule.Excludes[p])) && rootToExcludes["."][q] == e_relTo(dirPath, normalpath.Normalize(externalModule.Excludes[p])))
+//@   assert before "moduleConfigs = append(moduleConfigs, moduleConfig)" built-dir: moduleConfig.dirPath == dirPath
+//@   assert before "moduleConfigs = append(moduleConfigs, moduleConfig)" built-single-root: forall k string :: ((k in moduleConfig.rootToIncludes) <==> (k == ".")) && ((k in moduleConfig.rootToExcludes) <==> (k == "."))
+//@   assert before "moduleConfigs = append(moduleConfigs, moduleConfig)" built-includes-only: forall k string, q int :: k == "." && 0 <= q && q < len(moduleConfig.rootToIncludes[k]) ==> (exists p int :: 0 <= p && p < len(externalModule.Includes) && normalpath.Normalize(externalModule.Includes[p]) != moduleConfig.dirPath && ancOrSelf(moduleConfig.dirPath, normalpath.Normalize(externalModule.Includes[p])) && moduleConfig.rootToIncludes[k][q] == e_relTo(moduleConfig.dirPath, normalpath.Normalize(externalModule.Includes[p])))
+//@   assert before "moduleConfigs = append(moduleConfigs, moduleConfig)" built-includes-all: forall k string, p int :: k == "." && 0 <= p && p < len(externalModule.Includes) ==> (exists q int :: 0 <= q && q < len(moduleConfig.rootToIncludes[k]) && moduleConfig.rootToIncludes[k][q] == e_relTo(moduleConfig.dirPath, normalpath.Normalize(externalModule.Includes[p])))
+//@   assert before "moduleConfigs = append(moduleConfigs, moduleConfig)" built-excludes-only: forall k string, q int :: k == "." && 0 <= q && q < len(moduleConfig.rootToExcludes[k]) ==> (exists p int :: 0 <= p && p < len(externalModule.Excludes) && normalpath.Normalize(externalModule.Excludes[p]) != moduleConfig.dirPath && ancOrSelf(moduleConfig.dirPath, normalpath.Normalize(externalModule.Excludes[p])) && moduleConfig.rootToExcludes[k][q] == e_relTo(moduleConfig.dirPath, normalpath.Normalize(externalModule.Excludes[p])))
+//
+// ---------------------------------------------------------------------------------------------------------------
+// buf.lock
+//
+// Documented on BufLockFile: dependency keys (and, for v2, remote plugin keys) have unique names and are sorted by
+// name; v1beta1/v1 files hold b4 digests and no plugins, v2 files hold b5 module digests and p1 plugin digests.
+//@ trusted pure interface BufLockFile
+//@ trusted pure interface bufmodule.ModuleKey
+//@ trusted pure interface bufmodule.Digest
+//@ trusted pure interface bufplugin.PluginKey
+//@ trusted pure interface bufplugin.Digest
+//@ func validateNoDuplicateModuleKeysByFullName(moduleKeys) (err)
+//@   property C16
+//@   ensures unique: err == nil ==> (forall a int, b int :: 0 <= a && a < b && b < len(moduleKeys) ==> moduleKeys[a].FullName().String() != moduleKeys[b].FullName().String())
+//@   ensures duplicate-rejected: (exists a int, b int :: 0 <= a && a < b && b < len(moduleKeys) && moduleKeys[a].FullName().String() == moduleKeys[b].FullName().String()) ==> err != nil
+//@   loop 0 invariant seen: moduleFullNameStringMap != nil && (forall j int :: 0 <= j && j < $i ==> moduleKeys[j].FullName().String() in moduleFullNameStringMap) && (forall k string :: k in moduleFullNameStringMap ==> (exists j int :: 0 <= j && j < $i && moduleKeys[j].FullName().String() == k))
+//@   loop 0 invariant unique-so-far: forall a int, b int :: 0 <= a && a < b && b < $i ==> moduleKeys[a].FullName().String() != moduleKeys[b].FullName().String()
+//@   canary ensures err != nil
+//@ func validateNoDuplicatePluginKeysByFullName(pluginKeys) (err)
+//@   property C16
+//@   ensures unique: err == nil ==> (forall a int, b int :: 0 <= a && a < b && b < len(pluginKeys) ==> pluginKeys[a].FullName().String() != pluginKeys[b].FullName().String())
+//@   ensures duplicate-rejected: (exists a int, b int :: 0 <= a && a < b && b < len(pluginKeys) && pluginKeys[a].FullName().String() == pluginKeys[b].FullName().String()) ==> err != nil
+//@   loop 0 invariant seen: pluginFullNameStringMap != nil && (forall j int :: 0 <= j && j < $i ==> pluginKeys[j].FullName().String() in pluginFullNameStringMap) && (forall k string :: k in pluginFullNameStringMap ==> (exists j int :: 0 <= j && j < $i && pluginKeys[j].FullName().String() == k))
+//@   loop 0 invariant unique-so-far: forall a int, b int :: 0 <= a && a < b && b < $i ==> pluginKeys[a].FullName().String() != pluginKeys[b].FullName().String()
+//@   canary ensures err != nil
+//@ func validateModuleExpectedDigestType(moduleKeys, fileVersion, expectedDigestType) (err)
+//@   property C16
+//@   ensures all-of-type: err == nil ==> (forall j int :: 0 <= j && j < len(moduleKeys) ==> second(moduleKeys[j].Digest()) == nil && first(moduleKeys[j].Digest()).Type() == expectedDigestType)
+//@   ensures other-type-rejected: (exists j int :: 0 <= j && j < len(moduleKeys) && (second(moduleKeys[j].Digest()) != nil || first(moduleKeys[j].Digest()).Type() != expectedDigestType)) ==> err != nil
+//@   loop 0 invariant checked: forall j int :: 0 <= j && j < $i ==> second(moduleKeys[j].Digest()) == nil && first(moduleKeys[j].Digest()).Type() == expectedDigestType
+//@   canary ensures err != nil
+//@ func validatePluginExpectedDigestType(pluginKeys, fileVersion, expectedDigestType) (err)
+//@   property C16
+//@   ensures all-of-type: err == nil ==> (forall j int :: 0 <= j && j < len(pluginKeys) ==> second(pluginKeys[j].Digest()) == nil && first(pluginKeys[j].Digest()).Type() == expectedDigestType)
+//@   ensures other-type-rejected: (exists j int :: 0 <= j && j < len(pluginKeys) && (second(pluginKeys[j].Digest()) != nil || first(pluginKeys[j].Digest()).Type() != expectedDigestType)) ==> err != nil
+//@   loop 0 invariant checked: forall j int :: 0 <= j && j < $i ==> second(pluginKeys[j].Digest()) == nil && first(pluginKeys[j].Digest()).Type() == expectedDigestType
+//@   canary ensures err != nil
+// (the commit check compares with uuid.Nil, which the engine does not model: only the version part is stated)
+//@ func validateV1AndV1Beta1DepsHaveCommits(bufLockFile) (err)
+//@   property C16
+//@   ensures unknown-version-rejected: bufLockFile.FileVersion() != FileVersionV1Beta1 && bufLockFile.FileVersion() != FileVersionV1 && bufLockFile.FileVersion() != FileVersionV2 ==> err != nil
+//@   ensures v2-accepted: bufLockFile.FileVersion() == FileVersionV2 ==> err == nil
+//
+//@ func newBufLockFile(fileVersion, objectData, depModuleKeys, remotePluginKeys) (r, err)
+//@   property C16
+//@   ensures fresh: err == nil ==> r != nil
+//@   ensures unknown-version-rejected: fileVersion != FileVersionV1Beta1 && fileVersion != FileVersionV1 && fileVersion != FileVersionV2 ==> err != nil
+//@   ensures v1-no-plugins: (fileVersion == FileVersionV1Beta1 || fileVersion == FileVersionV1) && len(remotePluginKeys) > 0 ==> err != nil
+//@   ensures dep-names-unique: err == nil ==> (forall a int, b int :: 0 <= a && a < b && b < len(depModuleKeys) ==> depModuleKeys[a].FullName().String() != depModuleKeys[b].FullName().String())
+//@   ensures plugin-names-unique: err == nil ==> (forall a int, b int :: 0 <= a && a < b && b < len(remotePluginKeys) ==> remotePluginKeys[a].FullName().String() != remotePluginKeys[b].FullName().String())
+//@   ensures v1-digests-b4: err == nil && (fileVersion == FileVersionV1Beta1 || fileVersion == FileVersionV1) ==> (forall j int :: 0 <= j && j < len(depModuleKeys) ==> second(depModuleKeys[j].Digest()) == nil && first(depModuleKeys[j].Digest()).Type() == bufmodule.DigestTypeB4)
+//@   ensures v2-digests-b5: err == nil && fileVersion == FileVersionV2 ==> (forall j int :: 0 <= j && j < len(depModuleKeys) ==> second(depModuleKeys[j].Digest()) == nil && first(depModuleKeys[j].Digest()).Type() == bufmodule.DigestTypeB5)
+//@   ensures v2-plugin-digests-p1: err == nil && fileVersion == FileVersionV2 ==> (forall j int :: 0 <= j && j < len(remotePluginKeys) ==> second(remotePluginKeys[j].Digest()) == nil && first(remotePluginKeys[j].Digest()).Type() == bufplugin.DigestTypeP1)
+//@   ensures version: err == nil ==> r.fileVersion == fileVersion
+//@   ensures object-data: err == nil ==> r.objectData == objectData
+//@   ensures deps-kept: err == nil ==> len(r.depModuleKeys) == len(depModuleKeys) && (forall i int :: 0 <= i && i < len(depModuleKeys) ==> (exists j int :: 0 <= j && j < len(depModuleKeys) && r.depModuleKeys[i] == depModuleKeys[j])) && (forall j int :: 0 <= j && j < len(depModuleKeys) ==> (exists i int :: 0 <= i && i < len(depModuleKeys) && r.depModuleKeys[i] == depModuleKeys[j]))
+//@   ensures deps-sorted: err == nil ==> (forall a int, b int :: 0 <= a && a < b && b < len(r.depModuleKeys) ==> r.depModuleKeys[a].FullName().String() <= r.depModuleKeys[b].FullName().String())
+//@   ensures plugins-kept: err == nil ==> len(r.remotePluginKeys) == len(remotePluginKeys) && (forall i int :: 0 <= i && i < len(remotePluginKeys) ==> (exists j int :: 0 <= j && j < len(remotePluginKeys) && r.remotePluginKeys[i] == remotePluginKeys[j])) && (forall j int :: 0 <= j && j < len(remotePluginKeys) ==> (exists i int :: 0 <= i && i < len(remotePluginKeys) && r.remotePluginKeys[i] == remotePluginKeys[j]))
+//@   ensures plugins-sorted: err == nil ==> (forall a int, b int :: 0 <= a && a < b && b < len(r.remotePluginKeys) ==> r.remotePluginKeys[a].FullName().String() <= r.remotePluginKeys[b].FullName().String())
+//@ func (l *bufLockFile) FileVersion() (r)
+//@   property C16
+//@   ensures r == l.fileVersion
+//@ func (l *bufLockFile) DepModuleKeys() (r)
+//@   property C16
+//@   ensures r == l.depModuleKeys
+//@ func (l *bufLockFile) RemotePluginKeys() (r)
+//@   property C16
+//@   ensures r == l.remotePluginKeys
+//
+// Deprecated digests ("b1-...", "b3-...") are recognised by prefix (table[z_deprecatedDigests] fixes the prefixes).
+//@ table z_deprecatedDigests {C16} of deprecatedDigestTypeToPrefix
+//@   ensures prefixes: (forall k string :: (k in deprecatedDigestTypeToPrefix) <==> (k == "b1" || k == "b3")) && deprecatedDigestTypeToPrefix["b1"] == "b1-" && deprecatedDigestTypeToPrefix["b3"] == "b3-"
+//@ pure func getDeprecatedDigestTypeForExternalDigest(externalDigest) (r)
+//@   property C16
+//@   ensures deprecated-iff-prefixed: z_deprecatedDigests(deprecatedDigestTypeToPrefix) ==> ((r != "") <==> (hasPrefix(externalDigest, "b1-") || hasPrefix(externalDigest, "b3-")))
+//@   ensures names-the-type: z_deprecatedDigests(deprecatedDigestTypeToPrefix) && r != "" ==> (r == "b1" && hasPrefix(externalDigest, "b1-")) || (r == "b3" && hasPrefix(externalDigest, "b3-"))
+//@   loop 0 invariant none-so-far: forall k string :: k in $visited ==> !hasPrefix(externalDigest, deprecatedDigestTypeToPrefix[k])
+//@ pure func isDeprecatedExternalDigest(externalDigest) (r)
+//@   property C16
+//@   ensures r <==> (getDeprecatedDigestTypeForExternalDigest(externalDigest) != "")
+//
+// Writer: one external dep per key, in order (the keys are sorted by name, see above); every field of the key is
+// written: v1beta1/v1 remote / owner / repository / commit (dashless) / digest, never a branch; v2 name / commit /
+// digest, for modules and plugins; the version string is the file's. A key whose digest cannot be loaded is an error.
+//@ func writeBufLockFile(writer, bufLockFile) (err)
+//@   property C16
+//@   requires table-has-names: z_versionNames(fileVersionToString)
+//@   modifies heap, ghost.fail, ghost.wfail
+//@   ensures unknown-version-rejected: bufLockFile.FileVersion() != FileVersionV1Beta1 && bufLockFile.FileVersion() != FileVersionV1 && bufLockFile.FileVersion() != FileVersionV2 ==> err != nil
+//@   loop 0 invariant version-kept: externalBufLockFile.Version == fileVersion.String()
+//@   loop 1 invariant version-kept: externalBufLockFile.Version == fileVersion.String()
+//@   loop 2 invariant version-kept: externalBufLockFile.Version == fileVersion.String()
+//@   loop 0 invariant v1-deps-so-far: len(externalBufLockFile.Deps) == len(depModuleKeys) && (forall j int :: 0 <= j && j < $i ==> second(depModuleKeys[j].Digest()) == nil && externalBufLockFile.Deps[j].Remote == depModuleKeys[j].FullName().Registry() && externalBufLockFile.Deps[j].Owner == depModuleKeys[j].FullName().Owner() && externalBufLockFile.Deps[j].Repository == depModuleKeys[j].FullName().Name() && externalBufLockFile.Deps[j].Commit == uuidutil.ToDashless(depModuleKeys[j].CommitID()) && externalBufLockFile.Deps[j].Digest == first(depModuleKeys[j].Digest()).String() && externalBufLockFile.Deps[j].Branch == "")
+//@   assert before "data, err := encoding.MarshalYAML(&externalBufLockFile)"@1 v1-version-written: (fileVersion == FileVersionV1 ==> externalBufLockFile.Version == "v1") && (fileVersion == FileVersionV1Beta1 ==> externalBufLockFile.Version == "v1beta1")
+//@   assert before "data, err := encoding.MarshalYAML(&externalBufLockFile)"@1 v1-deps-written: depModuleKeys == bufLockFile.DepModuleKeys() && len(externalBufLockFile.Deps) == len(depModuleKeys) && (forall j int :: 0 <= j && j < len(depModuleKeys) ==> second(depModuleKeys[j].Digest()) == nil && externalBufLockFile.Deps[j].Remote == depModuleKeys[j].FullName().Registry() && externalBufLockFile.Deps[j].Owner == depModuleKeys[j].FullName().Owner() && externalBufLockFile.Deps[j].Repository == depModuleKeys[j].FullName().Name() && externalBufLockFile.Deps[j].Commit == uuidutil.ToDashless(depModuleKeys[j].CommitID()) && externalBufLockFile.Deps[j].Digest == first(depModuleKeys[j].Digest()).String() && externalBufLockFile.Deps[j].Branch == "")
+//@   loop 1 invariant v2-deps-so-far: len(externalBufLockFile.Deps) == len(depModuleKeys) && len(externalBufLockFile.Plugins) == len(remotePluginKeys) && (forall j int :: 0 <= j && j < $i ==> second(depModuleKeys[j].Digest()) == nil && externalBufLockFile.Deps[j].Name == depModuleKeys[j].FullName().String() && externalBufLockFile.Deps[j].Commit == uuidutil.ToDashless(depModuleKeys[j].CommitID()) && externalBufLockFile.Deps[j].Digest == first(depModuleKeys[j].Digest()).String())
+//@   loop 2 invariant v2-deps-done: len(externalBufLockFile.Deps) == len(depModuleKeys) && len(externalBufLockFile.Plugins) == len(remotePluginKeys) && (forall j int :: 0 <= j && j < len(depModuleKeys) ==> second(depModuleKeys[j].Digest()) == nil && externalBufLockFile.Deps[j].Name == depModuleKeys[j].FullName().String() && externalBufLockFile.Deps[j].Commit == uuidutil.ToDashless(depModuleKeys[j].CommitID()) && externalBufLockFile.Deps[j].Digest == first(depModuleKeys[j].Digest()).String())
+//@   loop 2 invariant v2-plugins-so-far: forall j int :: 0 <= j && j < $i ==> second(remotePluginKeys[j].Digest()) == nil && externalBufLockFile.Plugins[j].Name == remotePluginKeys[j].FullName().String() && externalBufLockFile.Plugins[j].Commit == uuidutil.ToDashless(remotePluginKeys[j].CommitID()) && externalBufLockFile.Plugins[j].Digest == first(remotePluginKeys[j].Digest()).String()
+//@   assert before "data, err := encoding.MarshalYAML(&externalBufLockFile)"@2 v2-version-written: externalBufLockFile.Version == "v2"
+//@   assert before "data, err := encoding.MarshalYAML(&externalBufLockFile)"@2 v2-deps-written: depModuleKeys == bufLockFile.DepModuleKeys() && len(externalBufLockFile.Deps) == len(depModuleKeys) && (forall j int :: 0 <= j && j < len(depModuleKeys) ==> second(depModuleKeys[j].Digest()) == nil && externalBufLockFile.Deps[j].Name == depModuleKeys[j].FullName().String() && externalBufLockFile.Deps[j].Commit == uuidutil.ToDashless(depModuleKeys[j].CommitID()) && externalBufLockFile.Deps[j].Digest == first(depModuleKeys[j].Digest()).String())
+//@   assert before "data, err := encoding.MarshalYAML(&externalBufLockFile)"@2 v2-plugins-written: remotePluginKeys == bufLockFile.RemotePluginKeys() && len(externalBufLockFile.Plugins) == len(remotePluginKeys) && (forall j int :: 0 <= j && j < len(remotePluginKeys) ==> second(remotePluginKeys[j].Digest()) == nil && externalBufLockFile.Plugins[j].Name == remotePluginKeys[j].FullName().String() && externalBufLockFile.Plugins[j].Commit == uuidutil.ToDashless(remotePluginKeys[j].CommitID()) && externalBufLockFile.Plugins[j].Digest == first(remotePluginKeys[j].Digest()).String())
+//
+// Reader. Per external dep, in order, one key (loop invariants, j-th key vs j-th dep); the keys then go through
+// newBufLockFile (validated, sorted by name; contract above).
+// v1beta1/v1: name = (remote, owner, repository), all three required; commit = the parsed dashless commit, required;
+//   a missing or deprecated (b1-/b3-) digest is accepted only with a digest resolver; the digest getter handed to the
+//   key parses the `digest` string (closure 0) or asks the resolver for (remote, commit) (closure 1).
+// v2: name = the parsed `name`, commit and digest required, deprecated digests refused; same for plugins.
+//@ func readBufLockFile(ctx, data, objectData, allowJSON, options) (r, err)
+//@   property C16
+//@   modifies heap, ghost.fail, ghost.wfail
+//@   requires table-has-prefixes: z_deprecatedDigests(deprecatedDigestTypeToPrefix)
+//@   ensures typed: err == nil ==> r != nil && cast(*bufLockFile, r) != nil
+//@   ensures object-data: err == nil ==> cast(*bufLockFile, r).objectData == objectData
+//@   closure 0 ensures digest-from-file: r == first(bufmodule.ParseDigest(dep.Digest)) && err == second(bufmodule.ParseDigest(dep.Digest))
+//@   closure 2 ensures digest-from-file: r == first(bufmodule.ParseDigest(dep.Digest)) && err == second(bufmodule.ParseDigest(dep.Digest))
+//@   closure 3 ensures digest-from-file: r == first(bufplugin.ParseDigest(plugin.Digest)) && err == second(bufplugin.ParseDigest(plugin.Digest))
+// ($entry(..): the deps as decoded, at loop entry; building the resolver literal counts as a heap effect and the
+// decoded struct lives in the heap because its address was handed to the decoder)
+//@   loop 1 invariant v1-one-key-per-dep: len(depModuleKeys) == len($entry(externalBufLockFile.Deps)) && (forall j int :: 0 <= j && j < $i ==> depModuleKeys[j] != nil && cast(*bufmodule.moduleKey, depModuleKeys[j]) != nil && cast(*bufparse.fullName, cast(*bufmodule.moduleKey, depModuleKeys[j]).moduleFullName) != nil)
+//@   loop 1 invariant v1-name: forall j int :: 0 <= j && j < $i ==> cast(*bufparse.fullName, cast(*bufmodule.moduleKey, depModuleKeys[j]).moduleFullName).registry == $entry(externalBufLockFile.Deps)[j].Remote && cast(*bufparse.fullName, cast(*bufmodule.moduleKey, depModuleKeys[j]).moduleFullName).owner == $entry(externalBufLockFile.Deps)[j].Owner && cast(*bufparse.fullName, cast(*bufmodule.moduleKey, depModuleKeys[j]).moduleFullName).name == $entry(externalBufLockFile.Deps)[j].Repository && $entry(externalBufLockFile.Deps)[j].Remote != "" && $entry(externalBufLockFile.Deps)[j].Owner != "" && $entry(externalBufLockFile.Deps)[j].Repository != ""
+//@   loop 1 invariant v1-commit: forall j int :: 0 <= j && j < $i ==> $entry(externalBufLockFile.Deps)[j].Commit != "" && second(uuidutil.FromDashless($entry(externalBufLockFile.Deps)[j].Commit)) == nil && cast(*bufmodule.moduleKey, depModuleKeys[j]).commitID == first(uuidutil.FromDashless($entry(externalBufLockFile.Deps)[j].Commit))
+//@   loop 1 invariant v1-digest-or-resolver: forall j int :: 0 <= j && j < $i ==> ($entry(externalBufLockFile.Deps)[j].Digest == "" || hasPrefix($entry(externalBufLockFile.Deps)[j].Digest, "b1-") || hasPrefix($entry(externalBufLockFile.Deps)[j].Digest, "b3-")) ==> bufLockFileOptions.digestResolver != nil
+//@   assert before "return newBufLockFile(fileVersion, objectData, depModuleKeys, nil"  v1-version: fileVersion == FileVersionV1Beta1 || fileVersion == FileVersionV1
+//@   loop 2 invariant v2-one-key-per-dep: len(depModuleKeys) == len(externalBufLockFile.Deps) && (forall j int :: 0 <= j && j < $i ==> depModuleKeys[j] != nil && cast(*bufmodule.moduleKey, depModuleKeys[j]) != nil)
+//@   loop 2 invariant v2-name: forall j int :: 0 <= j && j < $i ==> externalBufLockFile.Deps[j].Name != "" && second(bufparse.ParseFullName(externalBufLockFile.Deps[j].Name)) == nil && cast(*bufmodule.moduleKey, depModuleKeys[j]).moduleFullName == first(bufparse.ParseFullName(externalBufLockFile.Deps[j].Name))
+//@   loop 2 invariant v2-commit: forall j int :: 0 <= j && j < $i ==> externalBufLockFile.Deps[j].Commit != "" && second(uuidutil.FromDashless(externalBufLockFile.Deps[j].Commit)) == nil && cast(*bufmodule.moduleKey, depModuleKeys[j]).commitID == first(uuidutil.FromDashless(externalBufLockFile.Deps[j].Commit))
+//@   loop 2 invariant v2-digest-required: forall j int :: 0 <= j && j < $i ==> externalBufLockFile.Deps[j].Digest != "" && !hasPrefix(externalBufLockFile.Deps[j].Digest, "b1-") && !hasPrefix(externalBufLockFile.Deps[j].Digest, "b3-")
+//@   loop 3 invariant v2-one-key-per-plugin: len(remotePluginKeys) == len(externalBufLockFile.Plugins) && (forall j int :: 0 <= j && j < $i ==> remotePluginKeys[j] != nil && cast(*bufplugin.pluginKey, remotePluginKeys[j]) != nil)
+//@   loop 3 invariant v2-plugin-name: forall j int :: 0 <= j && j < $i ==> externalBufLockFile.Plugins[j].Name != "" && second(bufparse.ParseFullName(externalBufLockFile.Plugins[j].Name)) == nil && cast(*bufplugin.pluginKey, remotePluginKeys[j]).pluginFullName == first(bufparse.ParseFullName(externalBufLockFile.Plugins[j].Name))
+//@   loop 3 invariant v2-plugin-commit: forall j int :: 0 <= j && j < $i ==> externalBufLockFile.Plugins[j].Commit != "" && externalBufLockFile.Plugins[j].Digest != "" && second(uuidutil.FromDashless(externalBufLockFile.Plugins[j].Commit)) == nil && cast(*bufplugin.pluginKey, remotePluginKeys[j]).commitID == first(uuidutil.FromDashless(externalBufLockFile.Plugins[j].Commit))
+//@   loop 3 invariant v2-deps-done: len(depModuleKeys) == len(externalBufLockFile.Deps) && (forall j int :: 0 <= j && j < len(depModuleKeys) ==> depModuleKeys[j] != nil && externalBufLockFile.Deps[j].Name != "" && cast(*bufmodule.moduleKey, depModuleKeys[j]).moduleFullName == first(bufparse.ParseFullName(externalBufLockFile.Deps[j].Name)) && externalBufLockFile.Deps[j].Commit != "" && cast(*bufmodule.moduleKey, depModuleKeys[j]).commitID == first(uuidutil.FromDashless(externalBufLockFile.Deps[j].Commit)) && externalBufLockFile.Deps[j].Digest != "" && !hasPrefix(externalBufLockFile.Deps[j].Digest, "b1-") && !hasPrefix(externalBufLockFile.Deps[j].Digest, "b3-"))
+//@   assert before "return newBufLockFile(fileVersion, objectData, depModuleKeys, remotePluginKeys)" v2-version: fileVersion == FileVersionV2
+//
+// ---------------------------------------------------------------------------------------------------------------
+// buf.gen.yaml
+//
+// Plugin configs. Constructors: every argument lands in its own field, the kind is the constructor's kind;
+// include_wkt without include_imports is refused (documented on GeneratePluginConfig.IncludeWKT).
+//@ func newRemoteGeneratePluginConfig(name, out, opt, includeImports, includeWKT, includeTypes, excludeTypes, revision) (r, err)
+//@   property C16
+//@   ensures wkt-needs-imports: includeWKT && !includeImports ==> err != nil
+//@   ensures error-nil: err != nil ==> r == nil
+//@   ensures kind: err == nil ==> r != nil && r.generatePluginConfigType == GeneratePluginConfigTypeRemote
+//@   ensures name: err == nil ==> r.name == name
+//@   ensures out: err == nil ==> r.out == out
+//@   ensures opts: err == nil ==> r.opts == opt
+//@   ensures includeImports: err == nil ==> r.includeImports == includeImports
+//@   ensures includeWKT: err == nil ==> r.includeWKT == includeWKT
+//@   ensures includeTypes: err == nil ==> r.includeTypes == includeTypes
+//@   ensures excludeTypes: err == nil ==> r.excludeTypes == excludeTypes
+//@   ensures revision: err == nil ==> r.revision == revision
+//@   ensures remoteHost: err == nil ==> r.remoteHost == first(parseRemoteHostName(name))
+//@   ensures revision-range: err == nil ==> 0 <= revision && revision <= 2147483647
+//@   ensures no-strategy-no-paths: err == nil ==> r.strategy == nil && len(r.path) == 0 && len(r.protocPath) == 0
+//@ func newLocalOrProtocBuiltinGeneratePluginConfig(name, out, opt, includeImports, includeWKT, includeTypes, excludeTypes, strategy) (r, err)
+//@   property C16
+//@   ensures wkt-needs-imports: includeWKT && !includeImports ==> err != nil
+//@   ensures error-nil: err != nil ==> r == nil
+//@   ensures kind: err == nil ==> r != nil && r.generatePluginConfigType == GeneratePluginConfigTypeLocalOrProtocBuiltin
+//@   ensures name: err == nil ==> r.name == name
+//@   ensures out: err == nil ==> r.out == out
+//@   ensures opts: err == nil ==> r.opts == opt
+//@   ensures includeImports: err == nil ==> r.includeImports == includeImports
+//@   ensures includeWKT: err == nil ==> r.includeWKT == includeWKT
+//@   ensures includeTypes: err == nil ==> r.includeTypes == includeTypes
+//@   ensures excludeTypes: err == nil ==> r.excludeTypes == excludeTypes
+//@   ensures strategy: err == nil ==> r.strategy == strategy
+//@ func newLocalGeneratePluginConfig(name, out, opt, includeImports, includeWKT, includeTypes, excludeTypes, strategy, path) (r, err)
+//@   property C16
+//@   ensures wkt-needs-imports: includeWKT && !includeImports ==> err != nil
+//@   ensures error-nil: err != nil ==> r == nil
+//@   ensures kind: err == nil ==> r != nil && r.generatePluginConfigType == GeneratePluginConfigTypeLocal
+//@   ensures name: err == nil ==> r.name == name
+//@   ensures out: err == nil ==> r.out == out
+//@   ensures opts: err == nil ==> r.opts == opt
+//@   ensures includeImports: err == nil ==> r.includeImports == includeImports
+//@   ensures includeWKT: err == nil ==> r.includeWKT == includeWKT
+//@   ensures includeTypes: err == nil ==> r.includeTypes == includeTypes
+//@   ensures excludeTypes: err == nil ==> r.excludeTypes == excludeTypes
+//@   ensures strategy: err == nil ==> r.strategy == strategy
+//@   ensures path: err == nil ==> r.path == path
+//@   ensures path-required: len(path) == 0 ==> err != nil
+//@ func newProtocBuiltinGeneratePluginConfig(name, out, opt, includeImports, includeWKT, includeTypes, excludeTypes, strategy, protocPath) (r, err)
+//@   property C16
+//@   ensures wkt-needs-imports: includeWKT && !includeImports ==> err != nil
+//@   ensures error-nil: err != nil ==> r == nil
+//@   ensures kind: err == nil ==> r != nil && r.generatePluginConfigType == GeneratePluginConfigTypeProtocBuiltin
+//@   ensures name: err == nil ==> r.name == name
+//@   ensures out: err == nil ==> r.out == out
+//@   ensures opts: err == nil ==> r.opts == opt
+//@   ensures includeImports: err == nil ==> r.includeImports == includeImports
+//@   ensures includeWKT: err == nil ==> r.includeWKT == includeWKT
+//@   ensures includeTypes: err == nil ==> r.includeTypes == includeTypes
+//@   ensures excludeTypes: err == nil ==> r.excludeTypes == excludeTypes
+//@   ensures strategy: err == nil ==> r.strategy == strategy
+//@   ensures protocPath: err == nil ==> r.protocPath == protocPath
+// plugin references (remote host of a remote plugin) are parsed by bufremotepluginref: a string parser, treated like
+// the YAML decoder (trusted, deterministic)
+//@ trusted pure func parseRemoteHostName(fullName) (r, err)
+//@ func (p *generatePluginConfig) Type() (r)
+//@   property C16
+//@   ensures r == p.generatePluginConfigType
+//@ func (p *generatePluginConfig) Name() (r)
+//@   property C16
+//@   ensures r == p.name
+//@ func (p *generatePluginConfig) Out() (r)
+//@   property C16
+//@   ensures r == p.out
+//@ func (p *generatePluginConfig) IncludeImports() (r)
+//@   property C16
+//@   ensures r == p.includeImports
+//@ func (p *generatePluginConfig) IncludeWKT() (r)
+//@   property C16
+//@   ensures r == p.includeWKT
+//@ func (p *generatePluginConfig) IncludeTypes() (r)
+//@   property C16
+//@   ensures r == p.includeTypes
+//@ func (p *generatePluginConfig) ExcludeTypes() (r)
+//@   property C16
+//@   ensures r == p.excludeTypes
+//@ func (p *generatePluginConfig) Path() (r)
+//@   property C16
+//@   ensures r == p.path
+//@ func (p *generatePluginConfig) ProtocPath() (r)
+//@   property C16
+//@   ensures r == p.protocPath
+//@ func (p *generatePluginConfig) RemoteHost() (r)
+//@   property C16
+//@   ensures r == p.remoteHost
+//@ func (p *generatePluginConfig) Revision() (r)
+//@   property C16
+//@   ensures r == p.revision
+//@ func (p *generatePluginConfig) Opt() (r)
+//@   property C16
+//@   ensures r == strings.Join(p.opts, ",")
+//@ func (p *generatePluginConfig) Strategy() (r)
+//@   property C16
+//@   ensures default-directory: p.strategy == nil ==> r == GenerateStrategyDirectory
+//@   ensures as-set: p.strategy != nil ==> r == deref(p.strategy)
+//@ func parseStrategy(s) (r, err)
+//@   property C16
+//@   ensures unset: s == "" ==> r == nil && err == nil
+//@   ensures directory: s == "directory" ==> err == nil && r != nil && deref(r) == GenerateStrategyDirectory
+//@   ensures all: s == "all" ==> err == nil && r != nil && deref(r) == GenerateStrategyAll
+//@   ensures unknown-rejected: s != "" && s != "directory" && s != "all" ==> err != nil
+//
+// Writer side of one plugin (always the v2 shape). Scalars and lists go to their own keys. `types` / `exclude_types`
+// of a plugin are part of its configuration (GeneratePluginConfig.IncludeTypes / ExcludeTypes, read from these keys
+// by newGeneratePluginConfigFromExternalV2), so the writer must emit them:
+// FINDING (both clauses fail on this tree): post[types-written], post[exclude-types-written]: the external struct is
+// built without Types / ExcludeTypes; a v2 file with per-plugin `types` loses them on read -> write -> read.
+// (`modifies heap`: the function allocates pointer cells for the optional keys; the clauses therefore speak about
+// the config object in the entry state, old(..))
+// (the multi-word forms of opt / local / protoc_path hold a []string inside an `any`: "cast: unknown type []string", not stated)
+//@ func toPointer(value) (r)
+//@   property C16
+//@   ensures fresh: r != nil
+//@   ensures holds-value: deref(r) == value
+//@ trusted pure interface GeneratePluginConfig
+//@ func newExternalGeneratePluginConfigV2FromPluginConfig(pluginConfig) (r, err)
+//@   property C16
+//@   modifies heap
+//@   ensures foreign-implementation-rejected: cast(*generatePluginConfig, pluginConfig) == nil ==> err != nil
+//@   ensures out: err == nil ==> r.Out == old(cast(*generatePluginConfig, pluginConfig).out)
+//@   ensures include-imports: err == nil ==> r.IncludeImports == old(cast(*generatePluginConfig, pluginConfig).includeImports)
+//@   ensures include-wkt: err == nil ==> r.IncludeWKT == old(cast(*generatePluginConfig, pluginConfig).includeWKT)
+//@   ensures types-written: err == nil ==> r.Types == old(cast(*generatePluginConfig, pluginConfig).includeTypes)
+//@   ensures exclude-types-written: err == nil ==> r.ExcludeTypes == old(cast(*generatePluginConfig, pluginConfig).excludeTypes)
+//@   ensures no-opt: err == nil && len(old(cast(*generatePluginConfig, pluginConfig).opts)) == 0 ==> r.Opt == nil
+//@   ensures one-opt: err == nil && len(old(cast(*generatePluginConfig, pluginConfig).opts)) == 1 ==> typeOf(r.Opt) == typeId(string) && cast(string, r.Opt) == old(cast(*generatePluginConfig, pluginConfig).opts)[0]
+//@   ensures remote-kind: err == nil && old(cast(*generatePluginConfig, pluginConfig).generatePluginConfigType) == GeneratePluginConfigTypeRemote ==> r.Remote != nil && r.Local == nil && r.ProtocBuiltin == nil
+//@   ensures local-kind: err == nil && old(cast(*generatePluginConfig, pluginConfig).generatePluginConfigType) == GeneratePluginConfigTypeLocal ==> r.Remote == nil && r.ProtocBuiltin == nil && r.Revision == nil
+//@   ensures local-one-word: err == nil && old(cast(*generatePluginConfig, pluginConfig).generatePluginConfigType) == GeneratePluginConfigTypeLocal && len(old(cast(*generatePluginConfig, pluginConfig).path)) == 1 ==> cast(string, r.Local) == old(cast(*generatePluginConfig, pluginConfig).path)[0]
+//@   ensures protoc-builtin-kind: err == nil && old(cast(*generatePluginConfig, pluginConfig).generatePluginConfigType) == GeneratePluginConfigTypeProtocBuiltin ==> r.ProtocBuiltin != nil && r.Remote == nil && r.Local == nil && r.Revision == nil
+//@   ensures protoc-path-one-word: err == nil && old(cast(*generatePluginConfig, pluginConfig).generatePluginConfigType) == GeneratePluginConfigTypeProtocBuiltin && len(old(cast(*generatePluginConfig, pluginConfig).protocPath)) == 1 ==> cast(string, r.ProtocPath) == old(cast(*generatePluginConfig, pluginConfig).protocPath)[0]
+// (a strategy pointer that holds neither "directory" nor "all" -- possible only through the exported constructors -- is
+// not written)
+//@   ensures strategy-directory: err == nil && old(cast(*generatePluginConfig, pluginConfig).strategy) != nil && old(deref(cast(*generatePluginConfig, pluginConfig).strategy)) == GenerateStrategyDirectory ==> r.Strategy != nil && deref(r.Strategy) == "directory"
+//@   ensures strategy-all: err == nil && old(cast(*generatePluginConfig, pluginConfig).strategy) != nil && old(deref(cast(*generatePluginConfig, pluginConfig).strategy)) == GenerateStrategyAll ==> r.Strategy != nil && deref(r.Strategy) == "all"
+//@   ensures remote-name-revision: err == nil && old(cast(*generatePluginConfig, pluginConfig).generatePluginConfigType) == GeneratePluginConfigTypeRemote ==> deref(r.Remote) == old(cast(*generatePluginConfig, pluginConfig).name) && ((old(cast(*generatePluginConfig, pluginConfig).revision) == 0) <==> (r.Revision == nil)) && (r.Revision != nil ==> deref(r.Revision) == old(cast(*generatePluginConfig, pluginConfig).revision))
+//@   ensures protoc-builtin-name: err == nil && old(cast(*generatePluginConfig, pluginConfig).generatePluginConfigType) == GeneratePluginConfigTypeProtocBuiltin ==> deref(r.ProtocBuiltin) == old(cast(*generatePluginConfig, pluginConfig).name)
+//@   ensures strategy-only-if-set: err == nil && r.Strategy != nil ==> old(cast(*generatePluginConfig, pluginConfig).strategy) != nil
+//@   ensures no-strategy-none-written: err == nil && old(cast(*generatePluginConfig, pluginConfig).strategy) == nil ==> r.Strategy == nil
+//@   canary ensures err != nil
+//
+// Inputs (v2 only): accessors only. The two converters are NOT under contract because of their path counts (the
+// engine enumerates paths without merging):
+//   newInputConfigFromExternalV2: twenty independent `if x != nil` statements, 2^20 paths (stopped after 20 minutes);
+//   newExternalInputConfigV2FromInputConfig: a ten-way switch and eight independent ifs, 2561 paths -- five bundled
+//   clauses took 215 s of solver time EACH (2561 path queries per clause), far beyond the budget.
+// SUSPECTED DEFECT seen while writing that contract (clause `exclude-types-written: r.ExcludeTypes ==
+// inputConfig.ExcludeTypes()` failed with a model, and discharged on a copy with the line
+// `externalInputConfigV2.ExcludeTypes = inputConfig.ExcludeTypes()` added): the writer emits `types` but never
+// `exclude_types` of an input; replayed on the real code (see /verif/replay/bufconfig_c16_test.go, vrGenDocs).
+//@ trusted pure interface InputConfig
+//@ func (i *inputConfig) Type() (r)
+//@   property C16
+//@   ensures r == i.inputConfigType
+//@ func (i *inputConfig) Location() (r)
+//@   property C16
+//@   ensures r == i.location
+//@ func (i *inputConfig) Compression() (r)
+//@   property C16
+//@   ensures r == i.compression
+//@ func (i *inputConfig) StripComponents() (r)
+//@   property C16
+//@   ensures r == i.stripComponents
+//@ func (i *inputConfig) SubDir() (r)
+//@   property C16
+//@   ensures r == i.subDir
+//@ func (i *inputConfig) Branch() (r)
+//@   property C16
+//@   ensures r == i.branch
+//@ func (i *inputConfig) CommitOrTag() (r)
+//@   property C16
+//@   ensures r == i.commitOrTag
+//@ func (i *inputConfig) Ref() (r)
+//@   property C16
+//@   ensures r == i.ref
+//@ func (i *inputConfig) Depth() (r)
+//@   property C16
+//@   ensures r == i.depth
+//@ func (i *inputConfig) RecurseSubmodules() (r)
+//@   property C16
+//@   ensures r == i.recurseSubmodules
+//@ func (i *inputConfig) IncludePackageFiles() (r)
+//@   property C16
+//@   ensures r == i.includePackageFiles
+//@ func (i *inputConfig) ExcludePaths() (r)
+//@   property C16
+//@   ensures r == i.excludePaths
+//@ func (i *inputConfig) TargetPaths() (r)
+//@   property C16
+//@   ensures r == i.targetPaths
+//@ func (i *inputConfig) IncludeTypes() (r)
+//@   property C16
+//@   ensures r == i.includeTypes
+//@ func (i *inputConfig) ExcludeTypes() (r)
+//@   property C16
+//@   ensures r == i.excludeTypes
+//
+// Managed mode (v2 shape). "Each external disable / override maps to exactly one rule with the same path / module /
+// field / option and back."
+// Option names go through two package-level tables (string <-> option); the functions are deterministic (pure) and
+// an empty name is never parsed: the readers test for "" first.
+//@ pure func (f FileOption) String() (r)
+//@   property C16
+//@   ensures from-table: f in fileOptionToString ==> r == fileOptionToString[f]
+//@ pure func (f FieldOption) String() (r)
+//@   property C16
+//@   ensures from-table: f in fieldOptionToString ==> r == fieldOptionToString[f]
+//@ pure func parseFileOption(s) (r, err)
+//@   property C16
+//@   ensures from-table: err == nil ==> strings.ToLower(strings.TrimSpace(s)) in stringToFileOption && r == stringToFileOption[strings.ToLower(strings.TrimSpace(s))]
+//@   ensures empty-rejected: strings.ToLower(strings.TrimSpace(s)) == "" ==> err != nil
+//@   ensures unknown-rejected: !(strings.ToLower(strings.TrimSpace(s)) in stringToFileOption) ==> err != nil
+//@ pure func parseFieldOption(s) (r, err)
+//@   property C16
+//@   ensures from-table: err == nil ==> strings.ToLower(strings.TrimSpace(s)) in stringToFieldOption && r == stringToFieldOption[strings.ToLower(strings.TrimSpace(s))]
+//@   ensures empty-rejected: strings.ToLower(strings.TrimSpace(s)) == "" ==> err != nil
+//@   ensures unknown-rejected: !(strings.ToLower(strings.TrimSpace(s)) in stringToFieldOption) ==> err != nil
+// paths in managed rules must already be in normal form
+//@ pure func validatePath(path) (err)
+//@   property C16
+//@   ensures normal-form-only: err == nil ==> validRel(path) && path == normalpath.Normalize(path)
+//@   ensures other-rejected: second(normalpath.NormalizeAndValidate(path)) != nil || path != normalpath.Normalize(path) ==> err != nil
+//
+// Disable rules: every argument is stored in its own field; the empty rule, a file option for a field, and a rule
+// with both a file and a field option are refused (documented on the external struct).
+//@ func newManagedDisableRule(path, moduleFullName, fieldName, fileOption, fieldOption) (r, err)
+//@   property C16
+//@   ensures typed: err == nil ==> r != nil && cast(*managedDisableRule, r) != nil
+//@   ensures kept: err == nil ==> cast(*managedDisableRule, r).path == path && cast(*managedDisableRule, r).moduleFullName == moduleFullName && cast(*managedDisableRule, r).fieldName == fieldName && cast(*managedDisableRule, r).fileOption == fileOption && cast(*managedDisableRule, r).fieldOption == fieldOption
+//@   ensures empty-rejected: path == "" && moduleFullName == "" && fieldName == "" && fileOption == FileOptionUnspecified && fieldOption == FieldOptionUnspecified ==> err != nil
+//@   ensures file-option-for-field-rejected: fieldName != "" && fileOption != FileOptionUnspecified ==> err != nil
+//@   ensures two-options-rejected: fileOption != FileOptionUnspecified && fieldOption != FieldOptionUnspecified ==> err != nil
+//@   ensures path-normal: err == nil && path != "" ==> validRel(path) && path == normalpath.Normalize(path)
+//@   ensures module-parses: err == nil && moduleFullName != "" ==> second(bufparse.ParseFullName(moduleFullName)) == nil
+//@   canary ensures err != nil
+// Override rules: path / module / field / option stored as given; the value is the one the option's parser makes of
+// the external value (a call through a table of function values: which parser, and what it returns, is not covered);
+// a missing value and an option without a parser are refused.
+//@ func newFileOptionManagedOverrideRule(path, moduleFullName, fileOption, value) (r, err)
+//@   property C16
+//@   modifies heap, ghost.fail, ghost.wfail
+//@   ensures kept: err == nil ==> r != nil && r.path == path && r.moduleFullName == moduleFullName && r.fileOption == fileOption && r.fieldName == "" && r.fieldOption == FieldOptionUnspecified
+//@   ensures value-required: value == nil ==> err != nil
+//@   ensures option-has-parser: err == nil ==> fileOption in fileOptionToParseOverrideValueFunc
+//@   ensures error-nil: err != nil ==> r == nil
+//@ func newFieldOptionManagedOverrideRule(path, moduleFullName, fieldName, fieldOption, value) (r, err)
+//@   property C16
+//@   modifies heap, ghost.fail, ghost.wfail
+//@   ensures kept: err == nil ==> r != nil && cast(*managedOverrideRule, r) != nil && cast(*managedOverrideRule, r).path == path && cast(*managedOverrideRule, r).moduleFullName == moduleFullName && cast(*managedOverrideRule, r).fieldName == fieldName && cast(*managedOverrideRule, r).fieldOption == fieldOption && cast(*managedOverrideRule, r).fileOption == FileOptionUnspecified
+//@   ensures value-required: value == nil ==> err != nil
+//@   ensures option-has-parser: err == nil ==> fieldOption in fieldOptionToParseOverrideValueFunc
+//@ func NewManagedOverrideRuleForFileOption(path, moduleFullName, fileOption, value) (r, err)
+//@   property C16
+//@   modifies heap, ghost.fail, ghost.wfail
+//@   ensures kept: err == nil ==> r != nil && cast(*managedOverrideRule, r) != nil && cast(*managedOverrideRule, r).path == path && cast(*managedOverrideRule, r).moduleFullName == moduleFullName && cast(*managedOverrideRule, r).fileOption == fileOption && cast(*managedOverrideRule, r).fieldName == "" && cast(*managedOverrideRule, r).fieldOption == FieldOptionUnspecified
+//@   ensures value-required: value == nil ==> err != nil
+//@ func NewManagedOverrideRuleForFieldOption(path, moduleFullName, fieldName, fieldOption, value) (r, err)
+//@   property C16
+//@   modifies heap, ghost.fail, ghost.wfail
+//@   ensures kept: err == nil ==> r != nil && cast(*managedOverrideRule, r) != nil && cast(*managedOverrideRule, r).path == path && cast(*managedOverrideRule, r).moduleFullName == moduleFullName && cast(*managedOverrideRule, r).fieldName == fieldName && cast(*managedOverrideRule, r).fieldOption == fieldOption && cast(*managedOverrideRule, r).fileOption == FileOptionUnspecified
+//@   ensures value-required: value == nil ==> err != nil
+//@ func (m *managedDisableRule) Path() (r)
+//@   property C16
+//@   ensures r == m.path
+//@ func (m *managedDisableRule) FullName() (r)
+//@   property C16
+//@   ensures r == m.moduleFullName
+//@ func (m *managedDisableRule) FieldName() (r)
+//@   property C16
+//@   ensures r == m.fieldName
+//@ func (m *managedDisableRule) FileOption() (r)
+//@   property C16
+//@   ensures r == m.fileOption
+//@ func (m *managedDisableRule) FieldOption() (r)
+//@   property C16
+//@   ensures r == m.fieldOption
+//@ func (m *managedOverrideRule) Path() (r)
+//@   property C16
+//@   ensures r == m.path
+//@ func (m *managedOverrideRule) FullName() (r)
+//@   property C16
+//@   ensures r == m.moduleFullName
+//@ func (m *managedOverrideRule) FieldName() (r)
+//@   property C16
+//@   ensures r == m.fieldName
+//@ func (m *managedOverrideRule) FileOption() (r)
+//@   property C16
+//@   ensures r == m.fileOption
+//@ func (m *managedOverrideRule) FieldOption() (r)
+//@   property C16
+//@   ensures r == m.fieldOption
+//@ func (m *managedOverrideRule) Value() (r)
+//@   property C16
+//@   ensures r == m.value
+//@ func (g *generateManagedConfig) Enabled() (r)
+//@   property C16
+//@   ensures r == g.enabled
+//@ func (g *generateManagedConfig) Disables() (r)
+//@   property C16
+//@   ensures r == g.disables
+//@ func (g *generateManagedConfig) Overrides() (r)
+//@   property C16
+//@   ensures r == g.overrides
+//
+// Reader: one rule per external entry, in order (loop invariants: j-th rule vs j-th entry).
+//@ func newGenerateManagedConfigFromExternalV2(externalConfig) (r, err)
+//@   property C16
+//@   modifies heap, ghost.fail, ghost.wfail
+//@   ensures typed: err == nil ==> r != nil && cast(*generateManagedConfig, r) != nil
+//@   ensures enabled: err == nil ==> cast(*generateManagedConfig, r).enabled == externalConfig.Enabled
+//@   ensures one-rule-per-entry: err == nil ==> len(cast(*generateManagedConfig, r).disables) == len(externalConfig.Disable) && len(cast(*generateManagedConfig, r).overrides) == len(externalConfig.Override)
+//@   loop 0 invariant one-disable-per-entry: len(disables) == $i && len(overrides) == 0 && (forall j int :: 0 <= j && j < $i ==> disables[j] != nil && cast(*managedDisableRule, disables[j]) != nil)
+//@   loop 0 invariant disable-fields: forall j int :: 0 <= j && j < $i ==> cast(*managedDisableRule, disables[j]).path == externalConfig.Disable[j].Path && cast(*managedDisableRule, disables[j]).moduleFullName == externalConfig.Disable[j].Module && cast(*managedDisableRule, disables[j]).fieldName == externalConfig.Disable[j].Field
+//@   loop 0 invariant disable-options: forall j int :: 0 <= j && j < $i ==> (externalConfig.Disable[j].FileOption == "" ==> cast(*managedDisableRule, disables[j]).fileOption == FileOptionUnspecified) && (externalConfig.Disable[j].FileOption != "" ==> second(parseFileOption(externalConfig.Disable[j].FileOption)) == nil && cast(*managedDisableRule, disables[j]).fileOption == first(parseFileOption(externalConfig.Disable[j].FileOption))) && (externalConfig.Disable[j].FieldOption == "" ==> cast(*managedDisableRule, disables[j]).fieldOption == FieldOptionUnspecified) && (externalConfig.Disable[j].FieldOption != "" ==> second(parseFieldOption(externalConfig.Disable[j].FieldOption)) == nil && cast(*managedDisableRule, disables[j]).fieldOption == first(parseFieldOption(externalConfig.Disable[j].FieldOption)))
+//@   loop 1 invariant disables-done: len(disables) == len(externalConfig.Disable)
+// (the override constructors call a parser through a table of function values, which counts as an arbitrary heap
+// effect: facts about EARLIER rules cannot be carried across it; the rule just built is asserted when it is appended)
+//@   assert before "overrides = append(overrides, override)"@1 built-field-option-override: externalOverrideConfig.Value != nil && externalOverrideConfig.FileOption == "" && externalOverrideConfig.FieldOption != "" && second(parseFieldOption(externalOverrideConfig.FieldOption)) == nil && cast(*managedOverrideRule, override) != nil && cast(*managedOverrideRule, override).path == externalOverrideConfig.Path && cast(*managedOverrideRule, override).moduleFullName == externalOverrideConfig.Module && cast(*managedOverrideRule, override).fieldName == externalOverrideConfig.Field && cast(*managedOverrideRule, override).fieldOption == first(parseFieldOption(externalOverrideConfig.FieldOption)) && cast(*managedOverrideRule, override).fileOption == FileOptionUnspecified
+//@   assert before "overrides = append(overrides, override)"@2 built-file-option-override: externalOverrideConfig.Value != nil && externalOverrideConfig.FieldOption == "" && externalOverrideConfig.FileOption != "" && externalOverrideConfig.Field == "" && second(parseFileOption(externalOverrideConfig.FileOption)) == nil && cast(*managedOverrideRule, override) != nil && cast(*managedOverrideRule, override).path == externalOverrideConfig.Path && cast(*managedOverrideRule, override).moduleFullName == externalOverrideConfig.Module && cast(*managedOverrideRule, override).fieldName == "" && cast(*managedOverrideRule, override).fileOption == first(parseFileOption(externalOverrideConfig.FileOption)) && cast(*managedOverrideRule, override).fieldOption == FieldOptionUnspecified
+//@   loop 1 invariant one-override-per-entry: len(overrides) == $i
+//@   canary ensures err != nil
+//
+// Writer: one external entry per rule, in order, with the rule's path / module / field; an option is written by its
+// name, an unspecified option as the empty (omitted) key. No managed config at all: the empty section.
+// (override values: getOverrideValue turns the two enum-valued options back into their names through protobuf's
+// generated String methods and passes every other value through; not covered)
+//@ trusted pure interface GenerateManagedConfig
+//@ trusted pure interface ManagedDisableRule
+//@ trusted pure interface ManagedOverrideRule
+//@ func newExternalManagedConfigV2FromGenerateManagedConfig(managedConfig) (r, err)
+//@   property C16
+//@   modifies heap, ghost.fail, ghost.wfail
+//@   ensures none-is-empty: managedConfig == nil ==> err == nil && !r.Enabled && len(r.Disable) == 0 && len(r.Override) == 0
+//@   ensures enabled: err == nil && managedConfig != nil ==> r.Enabled == managedConfig.Enabled()
+//@   ensures disables: err == nil && managedConfig != nil ==> len(r.Disable) == len(managedConfig.Disables()) && (forall j int :: 0 <= j && j < len(r.Disable) ==> r.Disable[j].Path == managedConfig.Disables()[j].Path() && r.Disable[j].Module == managedConfig.Disables()[j].FullName() && r.Disable[j].Field == managedConfig.Disables()[j].FieldName() && (managedConfig.Disables()[j].FileOption() == FileOptionUnspecified ==> r.Disable[j].FileOption == "") && (managedConfig.Disables()[j].FileOption() != FileOptionUnspecified ==> r.Disable[j].FileOption == managedConfig.Disables()[j].FileOption().String()) && (managedConfig.Disables()[j].FieldOption() == FieldOptionUnspecified ==> r.Disable[j].FieldOption == "") && (managedConfig.Disables()[j].FieldOption() != FieldOptionUnspecified ==> r.Disable[j].FieldOption == managedConfig.Disables()[j].FieldOption().String()))
+//@   ensures overrides: err == nil && managedConfig != nil ==> len(r.Override) == len(managedConfig.Overrides()) && (forall j int :: 0 <= j && j < len(r.Override) ==> r.Override[j].Path == managedConfig.Overrides()[j].Path() && r.Override[j].Module == managedConfig.Overrides()[j].FullName() && r.Override[j].Field == managedConfig.Overrides()[j].FieldName() && (managedConfig.Overrides()[j].FileOption() == FileOptionUnspecified ==> r.Override[j].FileOption == "") && (managedConfig.Overrides()[j].FileOption() != FileOptionUnspecified ==> r.Override[j].FileOption == managedConfig.Overrides()[j].FileOption().String()) && (managedConfig.Overrides()[j].FieldOption() == FieldOptionUnspecified ==> r.Override[j].FieldOption == "") && (managedConfig.Overrides()[j].FieldOption() != FieldOptionUnspecified ==> r.Override[j].FieldOption == managedConfig.Overrides()[j].FieldOption().String()))
+//@   loop 0 invariant disables-so-far: len(externalDisables) == $i && (forall j int :: 0 <= j && j < $i ==> externalDisables[j].Path == managedConfig.Disables()[j].Path() && externalDisables[j].Module == managedConfig.Disables()[j].FullName() && externalDisables[j].Field == managedConfig.Disables()[j].FieldName() && (managedConfig.Disables()[j].FileOption() == FileOptionUnspecified ==> externalDisables[j].FileOption == "") && (managedConfig.Disables()[j].FileOption() != FileOptionUnspecified ==> externalDisables[j].FileOption == managedConfig.Disables()[j].FileOption().String()) && (managedConfig.Disables()[j].FieldOption() == FieldOptionUnspecified ==> externalDisables[j].FieldOption == "") && (managedConfig.Disables()[j].FieldOption() != FieldOptionUnspecified ==> externalDisables[j].FieldOption == managedConfig.Disables()[j].FieldOption().String()))
+//@   loop 1 invariant disables-done: len(externalDisables) == len(managedConfig.Disables()) && (forall j int :: 0 <= j && j < len(externalDisables) ==> externalDisables[j].Path == managedConfig.Disables()[j].Path() && externalDisables[j].Module == managedConfig.Disables()[j].FullName() && externalDisables[j].Field == managedConfig.Disables()[j].FieldName() && (managedConfig.Disables()[j].FileOption() == FileOptionUnspecified ==> externalDisables[j].FileOption == "") && (managedConfig.Disables()[j].FileOption() != FileOptionUnspecified ==> externalDisables[j].FileOption == managedConfig.Disables()[j].FileOption().String()) && (managedConfig.Disables()[j].FieldOption() == FieldOptionUnspecified ==> externalDisables[j].FieldOption == "") && (managedConfig.Disables()[j].FieldOption() != FieldOptionUnspecified ==> externalDisables[j].FieldOption == managedConfig.Disables()[j].FieldOption().String()))
+//@   loop 1 invariant overrides-so-far: len(externalOverrides) == $i && (forall j int :: 0 <= j && j < $i ==> externalOverrides[j].Path == managedConfig.Overrides()[j].Path() && externalOverrides[j].Module == managedConfig.Overrides()[j].FullName() && externalOverrides[j].Field == managedConfig.Overrides()[j].FieldName() && (managedConfig.Overrides()[j].FileOption() == FileOptionUnspecified ==> externalOverrides[j].FileOption == "") && (managedConfig.Overrides()[j].FileOption() != FileOptionUnspecified ==> externalOverrides[j].FileOption == managedConfig.Overrides()[j].FileOption().String()) && (managedConfig.Overrides()[j].FieldOption() == FieldOptionUnspecified ==> externalOverrides[j].FieldOption == "") && (managedConfig.Overrides()[j].FieldOption() != FieldOptionUnspecified ==> externalOverrides[j].FieldOption == managedConfig.Overrides()[j].FieldOption().String()))
+//@   canary ensures err != nil
+//
+// The file object and the top-level reader / writer. The writer always writes the v2 shape: version "v2", `clean`,
+// one external plugin per plugin config, the managed section, one external input per input config (each converted
+// by the functions above; slicesext.MapError keeps length and order).
+//@ trusted pure interface BufGenYAMLFile
+//@ trusted pure interface GenerateConfig
+//@ func newBufGenYAMLFile(fileVersion, objectData, generateConfig, inputConfigs) (r)
+//@   property C16
+//@   ensures kept: r != nil && r.fileVersion == fileVersion && r.objectData == objectData && r.generateConfig == generateConfig && r.inputConfigs == inputConfigs
+//@ func (g *bufGenYAMLFile) FileVersion() (r)
+//@   property C16
+//@   ensures r == g.fileVersion
+//@ func (g *bufGenYAMLFile) GenerateConfig() (r)
+//@   property C16
+//@   ensures r == g.generateConfig
+//@ func (g *bufGenYAMLFile) InputConfigs() (r)
+//@   property C16
+//@   ensures r == g.inputConfigs
+//@ func (g *generateConfig) CleanPluginOuts() (r)
+//@   property C16
+//@   ensures r == g.cleanPluginOuts
+//@ func (g *generateConfig) GeneratePluginConfigs() (r)
+//@   property C16
+//@   ensures r == g.generatePluginConfigs
+//@ func (g *generateConfig) GenerateManagedConfig() (r)
+//@   property C16
+//@   ensures r == g.generateManagedConfig
+//@ func newGenerateConfigFromExternalFileV2(externalFile) (r, err)
+//@   property C16
+//@   modifies heap, ghost.fail, ghost.wfail
+//@   ensures typed: err == nil ==> r != nil && cast(*generateConfig, r) != nil
+//@   ensures clean: err == nil ==> cast(*generateConfig, r).cleanPluginOuts == externalFile.Clean
+//@   ensures one-config-per-plugin: err == nil ==> len(cast(*generateConfig, r).generatePluginConfigs) == len(externalFile.Plugins)
+//@   ensures managed-present: err == nil ==> cast(*generateConfig, r).generateManagedConfig != nil && cast(*generateManagedConfig, cast(*generateConfig, r).generateManagedConfig) != nil
+//@   ensures no-top-level-types: err == nil ==> cast(*generateConfig, r).generateTypeConfig == nil
+//@   canary ensures err != nil
+//@ func writeBufGenYAMLFile(writer, bufGenYAMLFile) (err)
+//@   property C16
+//@   requires table-has-names: z_versionNames(fileVersionToString)
+//@   modifies heap, ghost.fail, ghost.wfail
+//@   assert before "data, err := encoding.MarshalYAML(&externalBufGenYAMLFileV2)" written-as-v2: externalBufGenYAMLFileV2.Version == "v2" && externalBufGenYAMLFileV2.Clean == bufGenYAMLFile.GenerateConfig().CleanPluginOuts() && len(externalBufGenYAMLFileV2.Plugins) == len(bufGenYAMLFile.GenerateConfig().GeneratePluginConfigs()) && len(externalBufGenYAMLFileV2.Inputs) == len(bufGenYAMLFile.InputConfigs()) && externalBufGenYAMLFileV2.Plugins == externalPluginConfigsV2 && externalBufGenYAMLFileV2.Managed == externalManagedConfigV2 && externalBufGenYAMLFileV2.Inputs == externalInputConfigsV2
+//@   canary ensures err != nil
+//@ func readBufGenYAMLFile(data, objectData, allowJSON) (r, err)
+//@   property C16
+//@   modifies heap, ghost.fail, ghost.wfail
+//@   ensures typed: err == nil ==> r != nil && cast(*bufGenYAMLFile, r) != nil
+//@   ensures object-data: err == nil ==> cast(*bufGenYAMLFile, r).objectData == objectData
+//@   ensures v2-config-present: err == nil && cast(*bufGenYAMLFile, r).fileVersion == FileVersionV2 ==> cast(*bufGenYAMLFile, r).generateConfig != nil
+//@   ensures inputs-only-v2: err == nil && cast(*bufGenYAMLFile, r).fileVersion != FileVersionV2 ==> len(cast(*bufGenYAMLFile, r).inputConfigs) == 0
+//@   canary ensures err != nil
+//
+// Reader side of one plugin (v2). Exactly one of remote / local / protoc_builtin; `out` required; the scalar and
+// list keys arrive in their own fields; a strategy is refused for remote plugins, a revision for the two others,
+// protoc_path for anything but protoc_builtin. (opt / local / protoc_path hold "a string or a list of strings" in an
+// `any`: encoding.InterfaceSliceOrStringToStringSlice is part of the trusted decoding layer.)
+//@ func newGeneratePluginConfigFromExternalV2(externalConfig) (r, err)
+//@   property C16
+//@   ensures typed: err == nil ==> r != nil && cast(*generatePluginConfig, r) != nil
+//@   ensures exactly-one-kind: err == nil ==> (externalConfig.Remote != nil && externalConfig.Local == nil && externalConfig.ProtocBuiltin == nil) || (externalConfig.Remote == nil && externalConfig.Local != nil && externalConfig.ProtocBuiltin == nil) || (externalConfig.Remote == nil && externalConfig.Local == nil && externalConfig.ProtocBuiltin != nil)
+//@   ensures out-required: externalConfig.Out == "" ==> err != nil
+//@   ensures out: err == nil ==> cast(*generatePluginConfig, r).out == externalConfig.Out
+//@   ensures opt: err == nil ==> second(encoding.InterfaceSliceOrStringToStringSlice(externalConfig.Opt)) == nil && cast(*generatePluginConfig, r).opts == first(encoding.InterfaceSliceOrStringToStringSlice(externalConfig.Opt))
+//@   ensures include-imports-wkt: err == nil ==> cast(*generatePluginConfig, r).includeImports == externalConfig.IncludeImports && cast(*generatePluginConfig, r).includeWKT == externalConfig.IncludeWKT && (externalConfig.IncludeWKT ==> externalConfig.IncludeImports)
+//@   ensures types: err == nil ==> cast(*generatePluginConfig, r).includeTypes == externalConfig.Types && cast(*generatePluginConfig, r).excludeTypes == externalConfig.ExcludeTypes
+//@   ensures remote: err == nil && externalConfig.Remote != nil ==> cast(*generatePluginConfig, r).generatePluginConfigType == GeneratePluginConfigTypeRemote && cast(*generatePluginConfig, r).name == deref(externalConfig.Remote) && externalConfig.Strategy == nil && externalConfig.ProtocPath == nil && cast(*generatePluginConfig, r).strategy == nil && (externalConfig.Revision == nil ==> cast(*generatePluginConfig, r).revision == 0) && (externalConfig.Revision != nil ==> cast(*generatePluginConfig, r).revision == deref(externalConfig.Revision))
+//@   ensures local: err == nil && externalConfig.Local != nil ==> cast(*generatePluginConfig, r).generatePluginConfigType == GeneratePluginConfigTypeLocal && externalConfig.Revision == nil && externalConfig.ProtocPath == nil && cast(*generatePluginConfig, r).path == first(encoding.InterfaceSliceOrStringToStringSlice(externalConfig.Local)) && cast(*generatePluginConfig, r).name == strings.Join(first(encoding.InterfaceSliceOrStringToStringSlice(externalConfig.Local)), " ") && len(cast(*generatePluginConfig, r).path) > 0
+//@   ensures protoc-builtin: err == nil && externalConfig.ProtocBuiltin != nil ==> cast(*generatePluginConfig, r).generatePluginConfigType == GeneratePluginConfigTypeProtocBuiltin && cast(*generatePluginConfig, r).name == deref(externalConfig.ProtocBuiltin) && externalConfig.Revision == nil && cast(*generatePluginConfig, r).protocPath == first(encoding.InterfaceSliceOrStringToStringSlice(externalConfig.ProtocPath))
+// (an explicitly empty strategy string counts as "not set")
+//@   ensures strategy-unset: err == nil && (externalConfig.Strategy == nil || deref(externalConfig.Strategy) == "") ==> cast(*generatePluginConfig, r).strategy == nil
+//@   ensures strategy-set: err == nil && externalConfig.Strategy != nil && deref(externalConfig.Strategy) != "" ==> cast(*generatePluginConfig, r).strategy != nil && (deref(externalConfig.Strategy) == "directory" ==> deref(cast(*generatePluginConfig, r).strategy) == GenerateStrategyDirectory) && (deref(externalConfig.Strategy) == "all" ==> deref(cast(*generatePluginConfig, r).strategy) == GenerateStrategyAll) && (deref(externalConfig.Strategy) == "directory" || deref(externalConfig.Strategy) == "all")
+//@   canary ensures err != nil
